@@ -17,3 +17,2459 @@ Proof.
            | context [if ?x then _ else _] => destruct x eqn:?
            end; inversion H; subst; reflexivity.
 Qed.
+
+From Fiddle Require Import PySlice_proofs Store_proofs.
+
+(* ================================================================== varargs runs *)
+
+Definition va_run (st : store) (i : nat) (l : list ref) : Prop :=
+  (forall j, (j < length l)%nat -> sget st (kpos (i + j)) = nth_error l j)
+  /\ sget st (kpos (i + length l)) = None.
+
+Lemma abs_varargs_of_run l : forall f st i,
+  (length l <= f)%nat -> va_run st i l -> abs_varargs f st i = l.
+Proof.
+  induction l as [|v l IH]; intros f st i Hf [H1 H2].
+  - cbn [length] in H2. rewrite Nat.add_0_r in H2.
+    destruct f as [|f]; cbn [abs_varargs]; [reflexivity | rewrite H2; reflexivity].
+  - destruct f as [|f]; [cbn [length] in Hf; lia|].
+    cbn [abs_varargs].
+    pose proof (H1 0%nat ltac:(cbn [length]; lia)) as H0.
+    rewrite Nat.add_0_r in H0. cbn [nth_error] in H0. rewrite H0.
+    f_equal. apply IH.
+    + cbn [length] in Hf. lia.
+    + split.
+      * intros j Hj. replace (S i + j)%nat with (i + S j)%nat by lia.
+        rewrite H1 by (cbn [length]; lia). reflexivity.
+      * replace (S i + length l)%nat with (i + length (v :: l))%nat by (cbn [length]; lia).
+        exact H2.
+Qed.
+
+Lemma abs_varargs_run_gen f : forall st i,
+  (forall j, (j < length (abs_varargs f st i))%nat ->
+             sget st (kpos (i + j)) = nth_error (abs_varargs f st i) j)
+  /\ ((length (abs_varargs f st i) < f)%nat ->
+      sget st (kpos (i + length (abs_varargs f st i))) = None)
+  /\ (length (abs_varargs f st i) <= f)%nat.
+Proof.
+  induction f as [|f IH]; intros st i; cbn [abs_varargs].
+  - cbn [length]. repeat split; intros; lia.
+  - destruct (sget st (kpos i)) as [v|] eqn:E.
+    + destruct (IH st (S i)) as [A [B C]]. cbn [length]. repeat split.
+      * intros j Hj. destruct j as [|j].
+        -- rewrite Nat.add_0_r. cbn [nth_error]. exact E.
+        -- cbn [nth_error]. replace (i + S j)%nat with (S i + j)%nat by lia. apply A. lia.
+      * intros Hl. replace (i + S (length (abs_varargs f st (S i))))%nat
+          with (S i + length (abs_varargs f st (S i)))%nat by lia.
+        apply B. lia.
+      * lia.
+    + cbn [length]. repeat split.
+      * intros j Hj. lia.
+      * intros _. rewrite Nat.add_0_r. exact E.
+      * lia.
+Qed.
+
+Lemma va_run_present st i l j : va_run st i l -> (j < length l)%nat -> smem st (kpos (i + j)) = true.
+Proof.
+  intros [H _] Hj. apply smem_true. rewrite (H j Hj).
+  destruct (nth_error l j) as [v|] eqn:E.
+  - exists v. reflexivity.
+  - apply nth_error_None in E. lia.
+Qed.
+
+Lemma va_run_length st i l : va_run st i l -> (length l <= length st)%nat.
+Proof.
+  intros H. apply (run_length_bound st i). intros j Hj. eapply va_run_present; eauto.
+Qed.
+
+Lemma abs_varargs_is_run st i : va_run st i (abs_varargs (length st) st i).
+Proof.
+  destruct (abs_varargs_run_gen (length st) st i) as [A [B C]].
+  split; [exact A|].
+  destruct (Nat.lt_ge_cases (length (abs_varargs (length st) st i)) (length st)) as [L|L].
+  - apply B, L.
+  - destruct (sget st (kpos (i + length (abs_varargs (length st) st i)))) as [v|] eqn:E;
+      [|reflexivity].
+    exfalso.
+    assert (S (length (abs_varargs (length st) st i)) <= length st)%nat.
+    { apply (run_length_bound st i). intros j Hj.
+      apply smem_true.
+      destruct (Nat.eq_dec j (length (abs_varargs (length st) st i))) as [Ej|Ej].
+      - subst j. exists v. exact E.
+      - rewrite A by lia.
+        destruct (nth_error (abs_varargs (length st) st i) j) as [w|] eqn:N.
+        + exists w. reflexivity.
+        + apply nth_error_None in N. lia. }
+    lia.
+Qed.
+
+Lemma abs_varargs_eq_run st i l : va_run st i l -> abs_varargs (length st) st i = l.
+Proof.
+  intros H. apply abs_varargs_of_run; [|exact H]. eapply va_run_length; eauto.
+Qed.
+
+Lemma va_run_ext st st' i l :
+  (forall j, (i <= j)%nat -> sget st' (kpos j) = sget st (kpos j)) ->
+  va_run st i l -> va_run st' i l.
+Proof.
+  intros E [A B]. split.
+  - intros j Hj. rewrite E by lia. apply A, Hj.
+  - rewrite E by lia. exact B.
+Qed.
+
+Lemma abs_varargs_ext st st' i :
+  (forall j, (i <= j)%nat -> sget st' (kpos j) = sget st (kpos j)) ->
+  abs_varargs (length st') st' i = abs_varargs (length st) st i.
+Proof.
+  intros E. apply abs_varargs_eq_run. eapply va_run_ext; [exact E|]. apply abs_varargs_is_run.
+Qed.
+
+Lemma va_run_fun st i l l' : va_run st i l -> va_run st i l' -> l = l'.
+Proof.
+  intros H H'. rewrite <- (abs_varargs_eq_run _ _ _ H). apply abs_varargs_eq_run. exact H'.
+Qed.
+
+(* ================================================================== the invariant, pointwise *)
+
+Lemma inv_elim sg st :
+  inv sg st ->
+  keys_distinct st = true
+  /\ (forall k v, sget st k = Some v -> key_ok sg st k = true /\ v <> NoValue).
+Proof.
+  unfold inv, inv_b. intros H.
+  apply andb_prop in H. destruct H as [H H3]. apply andb_prop in H. destruct H as [H1 H2].
+  split; [exact H1|]. intros k v G. apply sget_In in G.
+  rewrite forallb_forall in H2, H3. split.
+  - apply (H2 (k, v) G).
+  - specialize (H3 (k, v) G). cbn [snd] in H3. apply negb_true_iff in H3.
+    intros E. apply ref_eqb_eq in E. congruence.
+Qed.
+
+Lemma inv_intro sg st :
+  keys_distinct st = true ->
+  (forall k v, sget st k = Some v -> key_ok sg st k = true /\ v <> NoValue) ->
+  inv sg st.
+Proof.
+  intros D H. unfold inv, inv_b. rewrite D. cbn [andb].
+  apply andb_true_intro. split; apply forallb_forall; intros [k v] HI; cbn [fst snd];
+    apply (In_sget _ _ _ D) in HI; destruct (H k v HI) as [A B].
+  - exact A.
+  - apply negb_true_iff. destruct (ref_eqb v NoValue) eqn:E; [|reflexivity].
+    apply ref_eqb_eq in E. contradiction.
+Qed.
+
+Lemma key_ok_mono sg st st' k :
+  (forall j, (n0 sg <= j)%nat -> smem st (kpos j) = true -> smem st' (kpos j) = true) ->
+  key_ok sg st k = true -> key_ok sg st' k = true.
+Proof.
+  intros M. destruct k as [i|n]; [|exact (fun H => H)].
+  cbn [key_ok]. intros H. apply andb_prop in H. destruct H as [H1 H2]. rewrite H1. cbn [andb].
+  destruct (i <? Z.of_nat (n0 sg)); [exact H2|].
+  apply andb_prop in H2. destruct H2 as [H2 H3]. rewrite H2. cbn [andb].
+  rewrite forallb_forall in *. intros j Hj. specialize (H3 j Hj).
+  apply In_nat_seq in Hj. apply M; [lia|exact H3].
+Qed.
+
+(* ================================================================== names, slots *)
+
+Lemma names_distinct_filter f sg : names_distinct sg = true -> names_distinct (filter f sg) = true.
+Proof.
+  induction sg as [|p sg IH]; intros H; [reflexivity|].
+  cbn [names_distinct] in H. apply andb_prop in H. destruct H as [H1 H2].
+  cbn [filter]. destruct (f p).
+  - cbn [names_distinct]. rewrite (IH H2), andb_true_r.
+    apply negb_true_iff. apply negb_true_iff in H1.
+    destruct (existsb (fun q => N.eqb (pname q) (pname p)) (filter f sg)) eqn:E; [|reflexivity].
+    apply existsb_exists in E. destruct E as [q [Hq E]]. apply filter_In in Hq.
+    destruct Hq as [Hq _].
+    assert (existsb (fun q => N.eqb (pname q) (pname p)) sg = true)
+      by (apply existsb_exists; exists q; auto).
+    congruence.
+  - apply IH, H2.
+Qed.
+
+Lemma valid_sig_names sg : valid_sig sg = true -> names_distinct sg = true.
+Proof.
+  unfold valid_sig. intros H. repeat (apply andb_prop in H; destruct H as [H ?]). assumption.
+Qed.
+
+Lemma valid_sig_prefix_names sg : valid_sig sg = true -> names_distinct (prefix_params sg) = true.
+Proof. intros H. apply names_distinct_filter, valid_sig_names, H. Qed.
+
+Lemma slot_from_range ps n : forall i j, slot_from ps n i = Some j -> (i <= j < i + length ps)%nat.
+Proof.
+  induction ps as [|p ps IH]; intros i j H; cbn [slot_from] in H; [discriminate|].
+  cbn [length]. destruct (N.eqb (pname p) n).
+  - destruct (pk p); inversion H; lia.
+  - apply IH in H. lia.
+Qed.
+
+Lemma slot_from_nth ps n : forall i j,
+  slot_from ps n i = Some j ->
+  exists p, nth_error ps (j - i) = Some p /\ pname p = n /\ pk p = PosOrKw.
+Proof.
+  induction ps as [|p ps IH]; intros i j H; cbn [slot_from] in H; [discriminate|].
+  destruct (N.eqb (pname p) n) eqn:E.
+  - apply N.eqb_eq in E. destruct (pk p) eqn:K; inversion H. subst j.
+    rewrite Nat.sub_diag. exists p. auto.
+  - pose proof (slot_from_range _ _ _ _ H) as R.
+    destruct (IH _ _ H) as [q [A B]]. exists q. split; [|exact B].
+    replace (j - i)%nat with (S (j - S i))%nat by lia. exact A.
+Qed.
+
+(* reading a slot *)
+Lemma abs_prefix_slot ps n st : forall i j,
+  slot_from ps n i = Some j ->
+  nth_error (abs_prefix ps i st) (j - i) = Some (sget st (KName n)).
+Proof.
+  induction ps as [|p ps IH]; intros i j H; cbn [slot_from] in H; [discriminate|].
+  cbn [abs_prefix]. destruct (N.eqb (pname p) n) eqn:E.
+  - apply N.eqb_eq in E. destruct (pk p) eqn:K; inversion H. subst j n.
+    rewrite Nat.sub_diag. reflexivity.
+  - pose proof (slot_from_range _ _ _ _ H) as R.
+    replace (j - i)%nat with (S (j - S i))%nat by lia. cbn [nth_error]. apply IH, H.
+Qed.
+
+Lemma abs_prefix_length ps i st : length (abs_prefix ps i st) = length ps.
+Proof. revert i. induction ps as [|p ps IH]; intros i; cbn [abs_prefix length]; [|rewrite IH]; reflexivity. Qed.
+
+(* abs_prefix only depends on lookups *)
+Lemma abs_prefix_ext ps st st' : forall i,
+  (forall k, sget st' k = sget st k) -> abs_prefix ps i st' = abs_prefix ps i st.
+Proof.
+  induction ps as [|p ps IH]; intros i E; cbn [abs_prefix]; [reflexivity|].
+  rewrite (IH _ E), !E. reflexivity.
+Qed.
+
+Definition prefix_key (p : param) (i : nat) : skey :=
+  match pk p with PosOnly => kpos i | _ => KName (pname p) end.
+
+Lemma abs_prefix_cons p ps i st :
+  abs_prefix (p :: ps) i st = sget st (prefix_key p i) :: abs_prefix ps (S i) st.
+Proof. cbn [abs_prefix]. unfold prefix_key. destruct (pk p); reflexivity. Qed.
+
+Fixpoint prefix_keys (ps : list param) (i : nat) : list skey :=
+  match ps with [] => [] | p :: ps' => prefix_key p i :: prefix_keys ps' (S i) end.
+
+Lemma abs_prefix_frame ps st st' : forall i,
+  (forall k, In k (prefix_keys ps i) -> sget st' k = sget st k) ->
+  abs_prefix ps i st' = abs_prefix ps i st.
+Proof.
+  induction ps as [|p ps IH]; intros i E; [reflexivity|].
+  rewrite !abs_prefix_cons. rewrite E by (left; reflexivity). f_equal.
+  apply IH. intros k Hk. apply E. right. exact Hk.
+Qed.
+
+Lemma abs_prefix_nth ps st : forall i d p,
+  nth_error ps d = Some p ->
+  nth_error (abs_prefix ps i st) d = Some (sget st (prefix_key p (i + d))).
+Proof.
+  induction ps as [|q ps IH]; intros i d p H; [destruct d; discriminate|].
+  rewrite abs_prefix_cons. destruct d as [|d]; cbn [nth_error] in *.
+  - inversion H. subst. rewrite Nat.add_0_r. reflexivity.
+  - rewrite (IH (S i) d p H). replace (S i + d)%nat with (i + S d)%nat by lia. reflexivity.
+Qed.
+
+Lemma prefix_keys_nth ps : forall i k,
+  In k (prefix_keys ps i) <-> exists d p, nth_error ps d = Some p /\ k = prefix_key p (i + d).
+Proof.
+  induction ps as [|q ps IH]; intros i k; cbn [prefix_keys].
+  - split; [intros []|]. intros [d [p [H _]]]. destruct d; discriminate.
+  - split.
+    + intros [H|H].
+      * exists 0%nat, q. rewrite Nat.add_0_r. auto.
+      * apply IH in H. destruct H as [d [p [A B]]]. exists (S d), p. split; [exact A|].
+        replace (i + S d)%nat with (S i + d)%nat by lia. exact B.
+    + intros [d [p [A B]]]. destruct d as [|d]; cbn [nth_error] in A.
+      * inversion A. subst. left. rewrite Nat.add_0_r. reflexivity.
+      * right. apply IH. exists d, p. split; [exact A|].
+        replace (S i + d)%nat with (i + S d)%nat by lia. exact B.
+Qed.
+
+(* general point update of abs_prefix *)
+Lemma list_set_nat_nth_error {A} (l : list A) : forall i v j,
+  nth_error (list_set_nat l i v) j =
+  if Nat.eqb j i then (if Nat.ltb i (length l) then Some v else None) else nth_error l j.
+Proof.
+  induction l as [|x l IH]; intros i v j.
+  - cbn [list_set_nat length]. destruct i; cbn [Nat.ltb Nat.leb];
+      destruct (Nat.eqb j _); destruct j; reflexivity.
+  - destruct i as [|i]; cbn [list_set_nat].
+    + destruct j as [|j]; reflexivity.
+    + destruct j as [|j]; cbn [nth_error]; [reflexivity|].
+      rewrite IH. cbn [length]. reflexivity.
+Qed.
+
+Lemma list_set_nat_length {A} (l : list A) : forall i v, length (list_set_nat l i v) = length l.
+Proof.
+  induction l as [|x l IH]; intros i v; [reflexivity|].
+  destruct i; cbn [list_set_nat length]; [|rewrite IH]; reflexivity.
+Qed.
+
+Lemma nth_error_ext {A} (l l' : list A) : (forall j, nth_error l j = nth_error l' j) -> l = l'.
+Proof.
+  revert l'. induction l as [|x l IH]; intros l' H.
+  - destruct l'; [reflexivity|]. specialize (H 0%nat). discriminate.
+  - destruct l' as [|y l']; [specialize (H 0%nat); discriminate|].
+    pose proof (H 0%nat) as H0. cbn in H0. inversion H0. f_equal.
+    apply IH. intros j. apply (H (S j)).
+Qed.
+
+(* the store after a write to the key of prefix slot d: slot d changes, the others do not,
+   provided the prefix keys are pairwise distinct *)
+Definition pkeys_distinct (ps : list param) (i : nat) : Prop :=
+  forall d d' p p', nth_error ps d = Some p -> nth_error ps d' = Some p' ->
+                    prefix_key p (i + d) = prefix_key p' (i + d') -> d = d'.
+
+Lemma abs_prefix_update ps i st st' d p o :
+  pkeys_distinct ps i ->
+  nth_error ps d = Some p ->
+  sget st' (prefix_key p (i + d)) = o ->
+  (forall k, k <> prefix_key p (i + d) -> sget st' k = sget st k) ->
+  abs_prefix ps i st' = list_set_nat (abs_prefix ps i st) d o.
+Proof.
+  intros PD Hp Ho Hf. apply nth_error_ext. intros j.
+  rewrite list_set_nat_nth_error, abs_prefix_length.
+  destruct (Nat.eqb j d) eqn:E.
+  - apply Nat.eqb_eq in E. subst j.
+    assert (L : (d < length ps)%nat) by (apply nth_error_Some; congruence).
+    apply Nat.ltb_lt in L. rewrite L. rewrite (abs_prefix_nth _ _ _ _ _ Hp). rewrite Ho. reflexivity.
+  - apply Nat.eqb_neq in E.
+    destruct (nth_error ps j) as [q|] eqn:Hq.
+    + rewrite !(abs_prefix_nth _ _ _ _ _ Hq). rewrite Hf; [reflexivity|].
+      intros K. apply E. eapply PD; eauto.
+    + assert (length ps <= j)%nat by (apply nth_error_None; exact Hq).
+      transitivity (@None (option ref)); [|symmetry]; apply nth_error_None;
+        rewrite abs_prefix_length; assumption.
+Qed.
+
+Lemma existsb_name_false ps p :
+  existsb (fun q => N.eqb (pname q) (pname p)) ps = false ->
+  forall d q, nth_error ps d = Some q -> pname q <> pname p.
+Proof.
+  intros H d q Hq E. apply nth_error_In in Hq.
+  assert (existsb (fun q => N.eqb (pname q) (pname p)) ps = true).
+  { apply existsb_exists. exists q. split; [exact Hq|]. apply N.eqb_eq. exact E. }
+  congruence.
+Qed.
+
+Lemma names_distinct_nth ps : names_distinct ps = true ->
+  forall d d' p p', nth_error ps d = Some p -> nth_error ps d' = Some p' ->
+                    pname p = pname p' -> d = d'.
+Proof.
+  induction ps as [|q ps IH]; intros H d d' p p' Hp Hp' E; [destruct d; discriminate|].
+  cbn [names_distinct] in H. apply andb_prop in H. destruct H as [H1 H2].
+  apply negb_true_iff in H1. pose proof (existsb_name_false _ _ H1) as X.
+  destruct d as [|d]; destruct d' as [|d']; cbn [nth_error] in *.
+  - reflexivity.
+  - inversion Hp. subst. exfalso. eapply X; eauto.
+  - inversion Hp'. subst. exfalso. eapply X; eauto.
+  - f_equal. eapply IH; eauto.
+Qed.
+
+Lemma pkeys_distinct_names ps i : names_distinct ps = true -> pkeys_distinct ps i.
+Proof.
+  intros H d d' p p' Hp Hp' E. unfold prefix_key in E.
+  destruct (pk p) eqn:K; destruct (pk p') eqn:K'; unfold kpos in E; inversion E;
+    try lia; eapply names_distinct_nth; eauto.
+Qed.
+
+(* ================================================================== abs_named *)
+
+Lemma abs_named_get sg st n : slot_of sg n = None -> ndget (abs_named sg st) n = sget st (KName n).
+Proof.
+  intros S. unfold ndget, sget.
+  induction st as [|[k v] st IH]; [reflexivity|].
+  cbn [abs_named dget]. destruct k as [i|m].
+  - rewrite (skey_eqb_neq (KName n) (KPos i)) by discriminate. exact IH.
+  - destruct (N.eq_dec n m) as [E|E].
+    + subst m. rewrite S. cbn [dget]. rewrite N.eqb_refl, skey_eqb_refl. reflexivity.
+    + rewrite (skey_eqb_neq (KName n) (KName m)) by congruence.
+      destruct (slot_of sg m); [exact IH|].
+      cbn [dget]. apply N.eqb_neq in E. rewrite E. exact IH.
+Qed.
+
+Lemma abs_named_sset_pos sg st i v : abs_named sg (sset st (KPos i) v) = abs_named sg st.
+Proof.
+  unfold sset. induction st as [|[k w] st IH]; [reflexivity|].
+  cbn [dset]. destruct (skey_eqb (KPos i) k) eqn:E.
+  - apply skey_eqb_eq in E. subst k. reflexivity.
+  - cbn [abs_named]. rewrite IH. reflexivity.
+Qed.
+
+Lemma abs_named_sdel_pos sg st i : abs_named sg (sdel st (KPos i)) = abs_named sg st.
+Proof.
+  unfold sdel. induction st as [|[k w] st IH]; [reflexivity|].
+  cbn [ddel]. destruct (skey_eqb (KPos i) k) eqn:E.
+  - apply skey_eqb_eq in E. subst k. reflexivity.
+  - cbn [abs_named]. rewrite IH. reflexivity.
+Qed.
+
+Lemma abs_named_sset_slot sg st n v j :
+  slot_of sg n = Some j -> abs_named sg (sset st (KName n) v) = abs_named sg st.
+Proof.
+  intros S. unfold sset. induction st as [|[k w] st IH].
+  - cbn [dset abs_named]. rewrite S. reflexivity.
+  - cbn [dset]. destruct (skey_eqb (KName n) k) eqn:E.
+    + apply skey_eqb_eq in E. subst k. cbn [abs_named]. rewrite S. reflexivity.
+    + cbn [abs_named]. rewrite IH. reflexivity.
+Qed.
+
+Lemma abs_named_sdel_slot sg st n j :
+  slot_of sg n = Some j -> abs_named sg (sdel st (KName n)) = abs_named sg st.
+Proof.
+  intros S. unfold sdel. induction st as [|[k w] st IH]; [reflexivity|].
+  cbn [ddel]. destruct (skey_eqb (KName n) k) eqn:E.
+  - apply skey_eqb_eq in E. subst k. cbn [abs_named]. rewrite S. reflexivity.
+  - cbn [abs_named]. rewrite IH. reflexivity.
+Qed.
+
+Lemma abs_named_sset_named sg st n v :
+  slot_of sg n = None -> abs_named sg (sset st (KName n) v) = ndset (abs_named sg st) n v.
+Proof.
+  intros S. unfold sset, ndset. induction st as [|[k w] st IH].
+  - cbn [dset abs_named]. rewrite S. reflexivity.
+  - cbn [dset]. destruct (skey_eqb (KName n) k) eqn:E.
+    + apply skey_eqb_eq in E. subst k. cbn [abs_named]. rewrite S. cbn [dset].
+      rewrite N.eqb_refl. reflexivity.
+    + cbn [abs_named]. destruct k as [i|m]; [exact IH|].
+      destruct (slot_of sg m); [exact IH|].
+      cbn [dset]. assert (n <> m) by (intros X; subst; rewrite skey_eqb_refl in E; discriminate).
+      apply N.eqb_neq in H. rewrite H. rewrite IH. reflexivity.
+Qed.
+
+Lemma abs_named_sdel_named sg st n :
+  slot_of sg n = None -> abs_named sg (sdel st (KName n)) = nddel (abs_named sg st) n.
+Proof.
+  intros S. unfold sdel, nddel. induction st as [|[k w] st IH]; [reflexivity|].
+  cbn [ddel]. destruct (skey_eqb (KName n) k) eqn:E.
+  - apply skey_eqb_eq in E. subst k. cbn [abs_named]. rewrite S. cbn [ddel].
+    rewrite N.eqb_refl. reflexivity.
+  - cbn [abs_named]. destruct k as [i|m]; [exact IH|].
+    destruct (slot_of sg m); [exact IH|].
+    cbn [ddel]. assert (n <> m) by (intros X; subst; rewrite skey_eqb_refl in E; discriminate).
+    apply N.eqb_neq in H. rewrite H. rewrite IH. reflexivity.
+Qed.
+
+(* ================================================================== abs, componentwise *)
+
+Definition abs_va (sg : sig) (st : store) : list ref :=
+  match vps sg with Some s => abs_varargs (length st) st s | None => [] end.
+
+Lemma abs_unfold sg st :
+  abs sg st = mkspec (abs_prefix (prefix_params sg) 0 st) (abs_va sg st) (abs_named sg st).
+Proof. reflexivity. Qed.
+
+Lemma abs_va_ext sg st st' :
+  (forall j, sget st' (kpos j) = sget st (kpos j)) -> abs_va sg st' = abs_va sg st.
+Proof.
+  intros E. unfold abs_va. destruct (vps sg) as [s|]; [|reflexivity].
+  apply abs_varargs_ext. intros j _. apply E.
+Qed.
+
+Lemma prefix_params_kind sg p : In p (prefix_params sg) -> is_prefix_kind (pk p) = true.
+Proof. unfold prefix_params. intros H. apply filter_In in H. apply H. Qed.
+
+Lemma slot_from_none_keys ps n : forall i,
+  names_distinct ps = true ->
+  (forall p, In p ps -> is_prefix_kind (pk p) = true) ->
+  slot_from ps n i = None -> ~ In (KName n) (prefix_keys ps i).
+Proof.
+  induction ps as [|p ps IH]; intros i ND PK S HI; [destruct HI|].
+  cbn [names_distinct] in ND. apply andb_prop in ND. destruct ND as [ND1 ND2].
+  apply negb_true_iff in ND1. pose proof (existsb_name_false _ _ ND1) as X.
+  cbn [slot_from] in S. cbn [prefix_keys] in HI.
+  assert (PKp : is_prefix_kind (pk p) = true) by (apply PK; left; reflexivity).
+  assert (PK' : forall q, In q ps -> is_prefix_kind (pk q) = true) by (intros q Hq; apply PK; right; exact Hq).
+  destruct (N.eqb (pname p) n) eqn:E.
+  - apply N.eqb_eq in E. destruct HI as [HI|HI].
+    + unfold prefix_key in HI. destruct (pk p); try discriminate.
+    + apply prefix_keys_nth in HI. destruct HI as [d [q [A B]]].
+      unfold prefix_key in B. destruct (pk q); try discriminate B; inversion B;
+        eapply X; eauto; congruence.
+  - apply N.eqb_neq in E. destruct HI as [HI|HI].
+    + unfold prefix_key in HI. destruct (pk p); inversion HI; congruence.
+    + eapply IH; eauto.
+Qed.
+
+Lemma find_param_none_slot ps n : forall f i,
+  find_param ps n = None -> slot_from (filter f ps) n i = None.
+Proof.
+  induction ps as [|p ps IH]; intros f i H; [reflexivity|].
+  cbn [find_param] in H. cbn [filter].
+  destruct (N.eqb (pname p) n) eqn:E; [discriminate|].
+  destruct (f p); [cbn [slot_from]; rewrite E|]; apply IH, H.
+Qed.
+
+Lemma find_param_posorkw_slot ps n p : forall i,
+  find_param ps n = Some p -> pk p = PosOrKw ->
+  exists j, slot_from (filter (fun p => is_prefix_kind (pk p)) ps) n i = Some j.
+Proof.
+  induction ps as [|q ps IH]; intros i H K; [discriminate|].
+  cbn [find_param] in H. cbn [filter].
+  destruct (N.eqb (pname q) n) eqn:E.
+  - inversion H. subst q. rewrite K. cbn [is_prefix_kind slot_from]. rewrite E, K. eauto.
+  - destruct (is_prefix_kind (pk q)); [cbn [slot_from]; rewrite E|]; apply IH; assumption.
+Qed.
+
+(* the current value of an attribute, as the specification reads it *)
+Lemma spec_cur sg st n :
+  match slot_of sg n with
+  | Some j => match nth_error (abs_prefix (prefix_params sg) 0 st) j with Some o => o | None => None end
+  | None => ndget (abs_named sg st) n
+  end = sget st (KName n).
+Proof.
+  destruct (slot_of sg n) as [j|] eqn:S.
+  - unfold slot_of in S. pose proof (abs_prefix_slot _ _ st _ _ S) as H.
+    rewrite Nat.sub_0_r in H. rewrite H. reflexivity.
+  - apply abs_named_get, S.
+Qed.
+
+(* ================================================================== invariant transfer *)
+
+Lemma inv_transfer sg st st' :
+  inv sg st ->
+  keys_distinct st' = true ->
+  (forall k v, sget st' k = Some v ->
+               sget st k = Some v \/ (key_ok sg st' k = true /\ v <> NoValue)) ->
+  (forall j, (n0 sg <= j)%nat -> smem st (kpos j) = true -> smem st' (kpos j) = true) ->
+  inv sg st'.
+Proof.
+  intros I D H M. apply inv_elim in I. destruct I as [_ I].
+  apply inv_intro; [exact D|]. intros k v G. destruct (H k v G) as [G'|G']; [|exact G'].
+  destruct (I k v G') as [A B]. split; [|exact B]. eapply key_ok_mono; eauto.
+Qed.
+
+Lemma inv_sset sg st k v :
+  inv sg st -> key_ok sg st k = true -> v <> NoValue -> inv sg (sset st k v).
+Proof.
+  intros I K V. pose proof (inv_elim _ _ I) as [D _].
+  assert (M : forall j, (n0 sg <= j)%nat -> smem st (kpos j) = true -> smem (sset st k v) (kpos j) = true).
+  { intros j _ H. rewrite smem_sset, H. apply orb_true_r. }
+  apply (inv_transfer sg st); [exact I | apply keys_distinct_sset, D | | exact M].
+  intros k' v' G. rewrite sget_sset in G. destruct (skey_eqb k' k) eqn:E.
+  - apply skey_eqb_eq in E. subst k'. inversion G. subst v'. right. split; [|exact V].
+    eapply key_ok_mono; eauto.
+  - left. exact G.
+Qed.
+
+(* deleting a key outside the *args region *)
+Lemma inv_sdel_low sg st k :
+  inv sg st -> (forall j, (n0 sg <= j)%nat -> k <> kpos j) -> inv sg (sdel st k).
+Proof.
+  intros I K. pose proof (inv_elim _ _ I) as [D _].
+  apply (inv_transfer sg st); [exact I | apply keys_distinct_sdel, D | | ].
+  - intros k' v' G. rewrite (sget_sdel _ _ _ D) in G. destruct (skey_eqb k' k); [discriminate|].
+    left. exact G.
+  - intros j Hj H. rewrite (smem_sdel _ _ _ D), H, andb_true_r.
+    apply negb_true_iff. apply skey_eqb_neq. intros E. apply (K j Hj). congruence.
+Qed.
+
+(* ================================================================== attribute access *)
+
+Lemma validate_key_ok sg st n : validate_param_name sg n = None -> key_ok sg st (KName n) = true.
+Proof.
+  unfold validate_param_name. cbn [key_ok].
+  destruct (find_param sg n) as [p|].
+  - destruct (pk p); try discriminate; try reflexivity.
+    destruct (has_var_kw sg); [reflexivity|discriminate].
+  - destruct (has_var_kw sg); [reflexivity|discriminate].
+Qed.
+
+Lemma refines_getattr sg st n :
+  valid_sig sg = true -> inv sg st -> refines_step sg st (OGetAttr n).
+Proof.
+  intros V I. unfold refines_step, step, step_w. cbn [spec_step fst].
+  split; [|split; [reflexivity|exact I]].
+  unfold getattr. rewrite abs_unfold. cbn [sp_prefix sp_named].
+  destruct (find_param sg n) as [p|] eqn:F.
+  - destruct (pk p) eqn:K; try reflexivity; rewrite spec_cur;
+      destruct (sget st (KName n)); try reflexivity;
+      destruct (pfactory p); try reflexivity; destruct (pdefault p); reflexivity.
+  - rewrite abs_named_get; [|apply find_param_none_slot, F].
+    destruct (sget st (KName n)); reflexivity.
+Qed.
+
+Lemma abs_sset_name sg st n v :
+  valid_sig sg = true -> keys_distinct st = true ->
+  abs sg (sset st (KName n) v) =
+  match slot_of sg n with
+  | Some j => set_slot (abs sg st) j (Some v)
+  | None => mkspec (sp_prefix (abs sg st)) (sp_varargs (abs sg st)) (ndset (sp_named (abs sg st)) n v)
+  end.
+Proof.
+  intros V D. rewrite !abs_unfold.
+  assert (VA : abs_va sg (sset st (KName n) v) = abs_va sg st).
+  { apply abs_va_ext. intros j. apply sget_sset_neq. discriminate. }
+  destruct (slot_of sg n) as [j|] eqn:S; unfold set_slot; cbn [sp_prefix sp_varargs sp_named];
+    rewrite VA.
+  - rewrite (abs_named_sset_slot _ _ _ _ _ S). f_equal.
+    unfold slot_of in S. destruct (slot_from_nth _ _ _ _ S) as [p [A [B C]]].
+    rewrite Nat.sub_0_r in A.
+    assert (PK : prefix_key p (0 + j) = KName n) by (unfold prefix_key; rewrite C, B; reflexivity).
+    eapply abs_prefix_update.
+    + apply pkeys_distinct_names, valid_sig_prefix_names, V.
+    + exact A.
+    + rewrite PK. apply sget_sset_eq.
+    + rewrite PK. intros k Hk. apply sget_sset_neq, Hk.
+  - rewrite (abs_named_sset_named _ _ _ _ S). f_equal.
+    apply abs_prefix_frame. intros k Hk. apply sget_sset_neq. intros E. subst k.
+    revert Hk. apply slot_from_none_keys.
+    + apply valid_sig_prefix_names, V.
+    + apply prefix_params_kind.
+    + exact S.
+Qed.
+
+Lemma abs_sdel_name sg st n :
+  valid_sig sg = true -> keys_distinct st = true ->
+  abs sg (sdel st (KName n)) =
+  match slot_of sg n with
+  | Some j => set_slot (abs sg st) j None
+  | None => mkspec (sp_prefix (abs sg st)) (sp_varargs (abs sg st)) (nddel (sp_named (abs sg st)) n)
+  end.
+Proof.
+  intros V D. rewrite !abs_unfold.
+  assert (VA : abs_va sg (sdel st (KName n)) = abs_va sg st).
+  { apply abs_va_ext. intros j. apply sget_sdel_neq. discriminate. }
+  destruct (slot_of sg n) as [j|] eqn:S; unfold set_slot; cbn [sp_prefix sp_varargs sp_named];
+    rewrite VA.
+  - rewrite (abs_named_sdel_slot _ _ _ _ S). f_equal.
+    unfold slot_of in S. destruct (slot_from_nth _ _ _ _ S) as [p [A [B C]]].
+    rewrite Nat.sub_0_r in A.
+    assert (PK : prefix_key p (0 + j) = KName n) by (unfold prefix_key; rewrite C, B; reflexivity).
+    eapply abs_prefix_update.
+    + apply pkeys_distinct_names, valid_sig_prefix_names, V.
+    + exact A.
+    + rewrite PK. apply sget_sdel_eq, D.
+    + rewrite PK. intros k Hk. apply sget_sdel_neq, Hk.
+  - rewrite (abs_named_sdel_named _ _ _ S). f_equal.
+    apply abs_prefix_frame. intros k Hk. apply sget_sdel_neq. intros E. subst k.
+    revert Hk. apply slot_from_none_keys.
+    + apply valid_sig_prefix_names, V.
+    + apply prefix_params_kind.
+    + exact S.
+Qed.
+
+Lemma refines_setattr sg st n v :
+  valid_sig sg = true -> inv sg st -> op_ok (OSetAttr n v) = true ->
+  refines_step sg st (OSetAttr n v).
+Proof.
+  intros V I OK. unfold refines_step, step, step_w, setattr. cbn [spec_step].
+  pose proof (inv_elim _ _ I) as [D _].
+  destruct (validate_param_name sg n) as [e|] eqn:VP.
+  - cbn [fst out_of]. auto.
+  - cbn [fst arg_set out_of].
+    pose proof (abs_sset_name sg st n v V D) as A.
+    assert (I' : inv sg (sset st (KName n) v)).
+    { apply inv_sset; [exact I | apply validate_key_ok, VP |].
+      cbn [op_ok] in OK. apply negb_true_iff in OK. intros E. apply ref_eqb_eq in E. congruence. }
+    destruct (slot_of sg n) as [j|]; auto.
+Qed.
+
+Lemma refines_delattr sg st n :
+  valid_sig sg = true -> inv sg st -> refines_step sg st (ODelAttr n).
+Proof.
+  intros V I. unfold refines_step, step, step_w, delattr, arg_del. cbn [spec_step].
+  pose proof (inv_elim _ _ I) as [D _]. cbn [fst snd].
+  pose proof (spec_cur sg st n) as C.
+  pose proof (abs_sdel_name sg st n V D) as A.
+  assert (I' : inv sg (sdel st (KName n))) by (apply inv_sdel_low; [exact I | discriminate]).
+  rewrite smem_sget. rewrite abs_unfold in *. cbn [sp_prefix sp_named sp_varargs] in *.
+  destruct (slot_of sg n) as [j|].
+  - destruct (nth_error (abs_prefix (prefix_params sg) 0 st) j) as [[w|]|];
+      rewrite <- C; cbn [fst out_of]; auto.
+  - rewrite C. destruct (sget st (KName n)); cbn [fst out_of]; auto.
+Qed.
+
+(* ================================================================== shape of a valid signature *)
+
+Lemma kinds_sorted_head sg : forall p,
+  kinds_sorted (p :: sg) = true ->
+  kinds_sorted sg = true
+  /\ forall q, In q sg ->
+       (kind_rank (pk p) <= kind_rank (pk q))%nat
+       /\ ((kind_rank (pk p) = 2 \/ kind_rank (pk p) = 4)%nat -> (kind_rank (pk p) < kind_rank (pk q))%nat).
+Proof.
+  induction sg as [|r sg IH]; intros p H.
+  - split; [reflexivity|]. intros q [].
+  - cbn [kinds_sorted] in H. fold (kinds_sorted (r :: sg)) in H.
+    apply andb_prop in H. destruct H as [H1 H2].
+    split; [exact H2|].
+    destruct (IH r H2) as [_ IHq].
+    assert (R : (kind_rank (pk p) <= kind_rank (pk r))%nat
+                /\ ((kind_rank (pk p) = 2 \/ kind_rank (pk p) = 4)%nat -> (kind_rank (pk p) < kind_rank (pk r))%nat)).
+    { apply orb_prop in H1. destruct H1 as [H1|H1].
+      - apply Nat.ltb_lt in H1. lia.
+      - apply andb_prop in H1. destruct H1 as [H1 H4]. apply andb_prop in H1. destruct H1 as [H1 H3].
+        apply Nat.eqb_eq in H1. apply negb_true_iff in H3, H4.
+        apply Nat.eqb_neq in H3, H4. lia. }
+    intros q [E|HI].
+    + subst q. exact R.
+    + destruct (IHq q HI) as [A B]. lia.
+Qed.
+
+Lemma prefix_rank k : is_prefix_kind k = true <-> (kind_rank k < 2)%nat.
+Proof. destruct k; cbn; split; intros; try lia; try discriminate; reflexivity. Qed.
+
+Lemma filter_all_false {A} (f : A -> bool) l : (forall x, In x l -> f x = false) -> filter f l = [].
+Proof.
+  induction l as [|x l IH]; intros H; [reflexivity|].
+  cbn [filter]. rewrite (H x (or_introl eq_refl)). apply IH. intros y Hy. apply H. right. exact Hy.
+Qed.
+
+Definition nonprefix (T : list param) : Prop := forall p, In p T -> is_prefix_kind (pk p) = false.
+
+Lemma not_prefix_rank k : is_prefix_kind k = false <-> (2 <= kind_rank k)%nat.
+Proof. destruct k; cbn; split; intros; try lia; try discriminate; reflexivity. Qed.
+
+Lemma sig_split sg :
+  kinds_sorted sg = true -> exists T, sg = prefix_params sg ++ T /\ nonprefix T /\ kinds_sorted T = true.
+Proof.
+  induction sg as [|p sg IH]; intros H.
+  - exists []. split; [reflexivity|]. split; [intros q []|reflexivity].
+  - destruct (kinds_sorted_head _ _ H) as [H2 Hq].
+    unfold prefix_params. cbn [filter]. destruct (is_prefix_kind (pk p)) eqn:K.
+    + destruct (IH H2) as [T [A [B C]]]. exists T. split; [|split; assumption].
+      cbn [app]. f_equal. exact A.
+    + exists (p :: sg). apply not_prefix_rank in K.
+      assert (NP : nonprefix (p :: sg)).
+      { intros q [E|HI]; apply not_prefix_rank; [subst; exact K|].
+        destruct (Hq q HI) as [A _]. lia. }
+      rewrite filter_all_false.
+      * split; [reflexivity|]. split; assumption.
+      * intros q HI. apply NP. right. exact HI.
+Qed.
+
+Lemma vps_from_prefix P : forall T i,
+  (forall p, In p P -> is_prefix_kind (pk p) = true) ->
+  vps_from (P ++ T) i = vps_from T (i + length P).
+Proof.
+  induction P as [|p P IH]; intros T i H.
+  - cbn [app length]. rewrite Nat.add_0_r. reflexivity.
+  - cbn [app vps_from length].
+    assert (K : is_prefix_kind (pk p) = true) by (apply H; left; reflexivity).
+    destruct (pk p); try discriminate K;
+      (rewrite IH by (intros q Hq; apply H; right; exact Hq); f_equal; lia).
+Qed.
+
+Lemma vps_from_none T : forall i, (forall p, In p T -> pk p <> VarPos) -> vps_from T i = None.
+Proof.
+  induction T as [|p T IH]; intros i H; [reflexivity|].
+  cbn [vps_from]. pose proof (H p (or_introl eq_refl)) as K.
+  destruct (pk p); try contradiction; apply IH; intros q Hq; apply H; right; exact Hq.
+Qed.
+
+Lemma vps_from_tail T i :
+  nonprefix T -> kinds_sorted T = true ->
+  vps_from T i = match T with
+                 | p :: _ => match pk p with VarPos => Some i | _ => None end
+                 | [] => None
+                 end.
+Proof.
+  intros NP KS. destruct T as [|p T]; [reflexivity|].
+  cbn [vps_from]. destruct (kinds_sorted_head _ _ KS) as [_ Hq].
+  pose proof (NP p (or_introl eq_refl)) as K.
+  destruct (pk p) eqn:E; try discriminate K; try reflexivity;
+    apply vps_from_none; intros q HI X; destruct (Hq q HI) as [A _]; rewrite X in A; cbn in A; lia.
+Qed.
+
+(* the facts about the shape of a valid signature used below *)
+Record sig_shape (sg : sig) (T : list param) : Prop := {
+  sh_split : sg = prefix_params sg ++ T;
+  sh_nonprefix : nonprefix T;
+  sh_vps : vps sg = match T with
+                    | p :: _ => match pk p with VarPos => Some (n0 sg) | _ => None end
+                    | [] => None
+                    end;
+  sh_vp_nodefault : forall p T', T = p :: T' -> pk p = VarPos -> pdefault p = None
+}.
+
+Lemma valid_sig_shape sg : valid_sig sg = true -> exists T, sig_shape sg T.
+Proof.
+  intros V. unfold valid_sig in V.
+  apply andb_prop in V. destruct V as [V V4]. apply andb_prop in V. destruct V as [V V3].
+  apply andb_prop in V. destruct V as [V1 V2].
+  destruct (sig_split sg V1) as [T [A [B C]]]. exists T. constructor.
+  - exact A.
+  - exact B.
+  - unfold vps. rewrite A at 1. rewrite vps_from_prefix by apply prefix_params_kind.
+    rewrite (vps_from_tail _ _ B C). reflexivity.
+  - intros p T' E K. unfold variadic_no_default in V4. rewrite forallb_forall in V4.
+    assert (HI : In p sg) by (rewrite A; apply in_or_app; right; subst T; left; reflexivity).
+    specialize (V4 p HI). rewrite K in V4. destruct (pdefault p); [discriminate|reflexivity].
+Qed.
+
+Lemma shape_vps_n0 sg T s : sig_shape sg T -> vps sg = Some s -> s = n0 sg.
+Proof.
+  intros SH H. rewrite (sh_vps _ _ SH) in H. destruct T as [|p T]; [discriminate|].
+  destruct (pk p); inversion H; reflexivity.
+Qed.
+
+Lemma vps_n0 sg s : valid_sig sg = true -> vps sg = Some s -> s = n0 sg.
+Proof. intros V H. destruct (valid_sig_shape sg V) as [T SH]. eapply shape_vps_n0; eauto. Qed.
+
+Lemma shape_nth_prefix sg T d :
+  sig_shape sg T -> (d < n0 sg)%nat -> nth_error sg d = nth_error (prefix_params sg) d.
+Proof.
+  intros SH H. rewrite (sh_split _ _ SH) at 1. apply nth_error_app1. exact H.
+Qed.
+
+Lemma shape_nth_tail sg T d :
+  sig_shape sg T -> (n0 sg <= d)%nat -> nth_error sg d = nth_error T (d - n0 sg).
+Proof.
+  intros SH H. rewrite (sh_split _ _ SH) at 1. apply nth_error_app2. exact H.
+Qed.
+
+Lemma has_varpos_vps sg : has_varpos sg = true <-> exists s, vps sg = Some s.
+Proof.
+  unfold has_varpos. destruct (vps sg) as [s|]; split; try discriminate; eauto.
+  intros [s H]. discriminate.
+Qed.
+
+(* ================================================================== transform_to_args_kwargs *)
+
+Fixpoint fill_slots (sg : sig) (slots : list (option ref)) (i : nat) : list ref :=
+  match slots with
+  | [] => []
+  | o :: r => (match o with Some v => v | None => get_default_idx sg i end) :: fill_slots sg r (S i)
+  end.
+
+Lemma fill_slots_length sg slots : forall i, length (fill_slots sg slots i) = length slots.
+Proof. induction slots as [|o r IH]; intros i; cbn [fill_slots length]; [|rewrite IH]; reflexivity. Qed.
+
+Lemma transform_params_nonprefix sg ipk inv vin T : forall i args acc,
+  nonprefix T -> transform_params sg ipk inv vin T i args acc = (acc, args).
+Proof.
+  induction T as [|p T IH]; intros i args acc NP; [reflexivity|].
+  cbn [transform_params]. pose proof (NP p (or_introl eq_refl)) as K.
+  destruct (pk p); try discriminate K; apply IH; intros q Hq; apply NP; right; exact Hq.
+Qed.
+
+Lemma pkeys_distinct_tail p ps i : pkeys_distinct (p :: ps) i -> pkeys_distinct ps (S i).
+Proof.
+  intros H d d' q q' A B E.
+  assert (S d = S d') as X; [|lia].
+  apply (H (S d) (S d') q q'); cbn [nth_error]; try assumption.
+  replace (i + S d)%nat with (S i + d)%nat by lia.
+  replace (i + S d')%nat with (S i + d')%nat by lia. exact E.
+Qed.
+
+Lemma pkeys_distinct_head p ps i : pkeys_distinct (p :: ps) i -> ~ In (prefix_key p i) (prefix_keys ps (S i)).
+Proof.
+  intros H HI. apply prefix_keys_nth in HI. destruct HI as [d [q [A B]]].
+  assert (0 = S d)%nat as X; [|lia].
+  apply (H 0%nat (S d) p q); cbn [nth_error]; try reflexivity; try assumption.
+  rewrite Nat.add_0_r. replace (i + S d)%nat with (S i + d)%nat by lia. exact B.
+Qed.
+
+Lemma transform_params_prefix sg vin ps : forall i args acc,
+  (forall p, In p ps -> is_prefix_kind (pk p) = true) ->
+  pkeys_distinct ps i ->
+  exists rest,
+    transform_params sg true true vin ps i args acc
+    = (acc ++ fill_slots sg (abs_prefix ps i args) i, rest)
+    /\ (forall k, ~ In k (prefix_keys ps i) -> sget rest k = sget args k).
+Proof.
+  induction ps as [|p ps IH]; intros i args acc PK PD.
+  - exists args. cbn [transform_params abs_prefix fill_slots]. rewrite app_nil_r. auto.
+  - assert (K : is_prefix_kind (pk p) = true) by (apply PK; left; reflexivity).
+    assert (PK' : forall q, In q ps -> is_prefix_kind (pk q) = true) by (intros q Hq; apply PK; right; exact Hq).
+    pose proof (pkeys_distinct_tail _ _ _ PD) as PD'.
+    pose proof (pkeys_distinct_head _ _ _ PD) as NH.
+    rewrite abs_prefix_cons. cbn [fill_slots prefix_keys].
+    assert (STEP : transform_params sg true true vin (p :: ps) i args acc =
+                   match sget args (prefix_key p i) with
+                   | Some v => transform_params sg true true vin ps (S i) (sdel args (prefix_key p i)) (acc ++ [v])
+                   | None => transform_params sg true true vin ps (S i) args (acc ++ [get_default_idx sg i])
+                   end).
+    { cbn [transform_params orb]. unfold prefix_key. destruct (pk p); try discriminate K; reflexivity. }
+    rewrite STEP. clear STEP.
+    destruct (sget args (prefix_key p i)) as [v|] eqn:G.
+    + destruct (IH (S i) (sdel args (prefix_key p i)) (acc ++ [v]) PK' PD') as [rest [A B]].
+      exists rest. split.
+      * rewrite A. rewrite <- app_assoc. cbn [app]. f_equal. f_equal. f_equal. f_equal.
+        apply abs_prefix_frame. intros k Hk. apply sget_sdel_neq. intros E. subst k. contradiction.
+      * intros k Hk. rewrite B by (intros X; apply Hk; right; exact X).
+        apply sget_sdel_neq. intros E. apply Hk. left. symmetry. exact E.
+    + destruct (IH (S i) args (acc ++ [get_default_idx sg i]) PK' PD') as [rest [A B]].
+      exists rest. split.
+      * rewrite A. rewrite <- app_assoc. reflexivity.
+      * intros k Hk. apply B. intros X. apply Hk. right. exact X.
+Qed.
+
+Lemma transform_params_app sg ipk inv vin ps1 : forall ps2 i args acc,
+  transform_params sg ipk inv vin (ps1 ++ ps2) i args acc =
+  let '(acc', args') := transform_params sg ipk inv vin ps1 i args acc in
+  transform_params sg ipk inv vin ps2 (i + length ps1) args' acc'.
+Proof.
+  induction ps1 as [|p ps1 IH]; intros ps2 i args acc.
+  - cbn [app transform_params length]. rewrite Nat.add_0_r. reflexivity.
+  - cbn [app transform_params length].
+    replace (i + S (length ps1))%nat with (S i + length ps1)%nat by lia.
+    destruct (pk p); try apply IH.
+    + destruct (sget args (kpos i)); apply IH.
+    + destruct (ipk || vin); [destruct (sget args (KName (pname p)))|]; apply IH.
+Qed.
+
+Lemma abs_varargs_fuel_ext f : forall st st' i,
+  (forall j, (i <= j)%nat -> sget st' (kpos j) = sget st (kpos j)) ->
+  abs_varargs f st' i = abs_varargs f st i.
+Proof.
+  induction f as [|f IH]; intros st st' i E; [reflexivity|].
+  cbn [abs_varargs]. rewrite E by lia. destruct (sget st (kpos i)); [|reflexivity].
+  f_equal. apply IH. intros j Hj. apply E. lia.
+Qed.
+
+Lemma take_varargs_fst f : forall args i acc,
+  fst (take_varargs f args i acc) = acc ++ abs_varargs f args i.
+Proof.
+  induction f as [|f IH]; intros args i acc; cbn [take_varargs abs_varargs].
+  - cbn [fst]. rewrite app_nil_r. reflexivity.
+  - destruct (sget args (kpos i)) as [v|] eqn:G.
+    + rewrite IH. rewrite <- app_assoc. cbn [app]. f_equal. f_equal.
+      apply abs_varargs_fuel_ext. intros j Hj. apply sget_sdel_neq. apply kpos_neq. lia.
+    + cbn [fst]. rewrite app_nil_r. reflexivity.
+Qed.
+
+Lemma prefix_keys_not_high ps i j :
+  (i + length ps <= j)%nat -> ~ In (kpos j) (prefix_keys ps i).
+Proof.
+  intros H HI. apply prefix_keys_nth in HI. destruct HI as [d [p [A B]]].
+  assert (d < length ps)%nat by (apply nth_error_Some; congruence).
+  unfold prefix_key in B. destruct (pk p); try discriminate B; apply kpos_inj in B; lia.
+Qed.
+
+Lemma all_positional_eq sg st :
+  valid_sig sg = true ->
+  all_positional sg st = fill_slots sg (abs_prefix (prefix_params sg) 0 st) 0 ++ abs_va sg st.
+Proof.
+  intros V. destruct (valid_sig_shape sg V) as [T SH].
+  unfold all_positional, transform.
+  set (vin := match vps sg with Some s => smem st (kpos s) | None => false end).
+  rewrite (sh_split _ _ SH) at 2. rewrite transform_params_app.
+  destruct (transform_params_prefix sg vin (prefix_params sg) 0 st [] (prefix_params_kind sg)
+              (pkeys_distinct_names _ _ (valid_sig_prefix_names sg V))) as [rest [A B]].
+  rewrite A. rewrite transform_params_nonprefix by apply (sh_nonprefix _ _ SH).
+  cbn [app]. unfold abs_va. destruct (vps sg) as [s|] eqn:VP.
+  - rewrite take_varargs_fst. f_equal.
+    pose proof (shape_vps_n0 _ _ _ SH VP) as Es. subst s.
+    apply abs_varargs_ext. intros j Hj. apply B. apply prefix_keys_not_high.
+    unfold n0, n_prefix in Hj. lia.
+  - cbn [fst]. rewrite app_nil_r. reflexivity.
+Qed.
+
+Lemma all_positional_length sg st :
+  valid_sig sg = true -> zlen (all_positional sg st) = spec_len sg (abs sg st).
+Proof.
+  intros V. rewrite (all_positional_eq _ _ V). unfold spec_len. unfold zlen.
+  rewrite app_length, fill_slots_length, abs_prefix_length. rewrite abs_unfold. cbn [sp_varargs].
+  unfold n0, n_prefix. lia.
+Qed.
+
+(* ------------------------------------------------------------------ fill_defaults *)
+
+Lemma fill_defaults_app sg l1 : forall l2 i,
+  fill_defaults sg (l1 ++ l2) i = fill_defaults sg l1 i ++ fill_defaults sg l2 (i + length l1).
+Proof.
+  induction l1 as [|v l1 IH]; intros l2 i.
+  - cbn [app fill_defaults length]. rewrite Nat.add_0_r. reflexivity.
+  - cbn [app fill_defaults length]. rewrite IH.
+    replace (i + S (length l1))%nat with (S i + length l1)%nat by lia. reflexivity.
+Qed.
+
+Lemma fill_defaults_id sg l : forall i, (forall v, In v l -> v <> NoValue) -> fill_defaults sg l i = l.
+Proof.
+  induction l as [|v l IH]; intros i H; [reflexivity|].
+  cbn [fill_defaults]. rewrite IH by (intros w Hw; apply H; right; exact Hw).
+  destruct (ref_eqb v NoValue) eqn:E; [|reflexivity].
+  apply ref_eqb_eq in E. exfalso. apply (H v); [left; reflexivity|exact E].
+Qed.
+
+Lemma fill_defaults_slots sg ps : forall slots i,
+  (forall d p, nth_error ps d = Some p -> nth_error sg (i + d) = Some p) ->
+  length slots = length ps ->
+  (forall v, In (Some v) slots -> v <> NoValue) ->
+  fill_defaults sg (fill_slots sg slots i) i = view_prefix ps slots.
+Proof.
+  induction ps as [|p ps IH]; intros slots i N L NV.
+  - destruct slots; [reflexivity|discriminate].
+  - destruct slots as [|o slots]; [discriminate|].
+    cbn [fill_slots fill_defaults view_prefix].
+    rewrite IH.
+    + f_equal. pose proof (N 0%nat p eq_refl) as Np. rewrite Nat.add_0_r in Np. rewrite Np.
+      destruct o as [v|].
+      * destruct (ref_eqb v NoValue) eqn:E; [|reflexivity].
+        apply ref_eqb_eq in E. exfalso. apply (NV v); [left; reflexivity|exact E].
+      * unfold get_default_idx. rewrite Np.
+        destruct (pdefault p) as [d|].
+        -- destruct (vps sg) as [s|]; [destruct (Nat.ltb i s)|].
+           ++ destruct (ref_eqb d NoValue) eqn:E; [|reflexivity]. reflexivity.
+           ++ cbn. reflexivity.
+           ++ cbn. reflexivity.
+        -- destruct (vps sg) as [s|]; [destruct (Nat.ltb i s)|]; reflexivity.
+    + intros d q Hq. replace (S i + d)%nat with (i + S d)%nat by lia. apply N. exact Hq.
+    + cbn [length] in L. lia.
+    + intros v Hv. apply NV. right. exact Hv.
+Qed.
+
+Lemma abs_prefix_values sg ps st : forall i v,
+  inv sg st -> In (Some v) (abs_prefix ps i st) -> v <> NoValue.
+Proof.
+  induction ps as [|p ps IH]; intros i v I H; [destruct H|].
+  rewrite abs_prefix_cons in H. destruct H as [H|H].
+  - apply inv_elim in I. destruct I as [_ I]. apply (I _ _ H).
+  - eapply IH; eauto.
+Qed.
+
+Lemma abs_varargs_values sg st f : forall i v,
+  inv sg st -> In v (abs_varargs f st i) -> v <> NoValue.
+Proof.
+  induction f as [|f IH]; intros i v I H; [destruct H|].
+  cbn [abs_varargs] in H. destruct (sget st (kpos i)) as [w|] eqn:G; [|destruct H].
+  destruct H as [H|H].
+  - subst w. apply inv_elim in I. destruct I as [_ I]. apply (I _ _ G).
+  - eapply IH; eauto.
+Qed.
+
+Lemma abs_va_values sg st v : inv sg st -> In v (abs_va sg st) -> v <> NoValue.
+Proof.
+  unfold abs_va. destruct (vps sg); [apply abs_varargs_values|intros _ []].
+Qed.
+
+Theorem positional_view_abs sg st :
+  valid_sig sg = true -> inv sg st -> positional_view sg st = spec_view sg (abs sg st).
+Proof.
+  intros V I. destruct (valid_sig_shape sg V) as [T SH].
+  unfold positional_view, spec_view. rewrite (all_positional_eq _ _ V).
+  rewrite abs_unfold. cbn [sp_prefix sp_varargs].
+  rewrite fill_defaults_app. f_equal.
+  - apply fill_defaults_slots.
+    + intros d p H. cbn [Nat.add]. rewrite (shape_nth_prefix _ _ _ SH); [exact H|].
+      unfold n0, n_prefix. apply nth_error_Some. congruence.
+    + apply abs_prefix_length.
+    + intros v. apply (abs_prefix_values sg). exact I.
+  - apply fill_defaults_id. intros v. apply abs_va_values. exact I.
+Qed.
+
+Lemma refines_getitem sg st i :
+  valid_sig sg = true -> inv sg st -> refines_step sg st (OGetItem i).
+Proof.
+  intros V I. unfold refines_step, step, step_w. cbn [spec_step fst].
+  split; [|split; [reflexivity|exact I]].
+  unfold getitem. rewrite (positional_view_abs _ _ V I).
+  destruct (replace_int sg i); [|reflexivity].
+  destruct (list_get (spec_view sg (abs sg st)) z); reflexivity.
+Qed.
+
+Lemma refines_getslice sg st sl :
+  valid_sig sg = true -> inv sg st -> refines_step sg st (OGetSlice sl).
+Proof.
+  intros V I. unfold refines_step, step, step_w. cbn [spec_step fst].
+  split; [|split; [reflexivity|exact I]].
+  unfold getslice. rewrite (positional_view_abs _ _ V I).
+  destruct (list_get_slice _ _ _ _); reflexivity.
+Qed.
+
+(* ================================================================== positions and keys *)
+
+Definition pos_key (sg : sig) (j : nat) : skey :=
+  match nth_error (prefix_params sg) j with Some p => prefix_key p j | None => kpos j end.
+
+Lemma n0_le_length sg T : sig_shape sg T -> (n0 sg <= length sg)%nat.
+Proof. intros SH. rewrite (sh_split _ _ SH) at 2. rewrite app_length. unfold n0, n_prefix. lia. Qed.
+
+Lemma prefix_not_posorkw p : is_prefix_kind (pk p) = true -> pk p <> PosOrKw -> pk p = PosOnly.
+Proof. destruct (pk p); intros H N; try discriminate H; try reflexivity. contradiction. Qed.
+
+Lemma py_nth_param_nonneg sg z :
+  0 <= z < Z.of_nat (length sg) -> py_nth_param sg z = nth_error sg (Z.to_nat z).
+Proof.
+  intros H. unfold py_nth_param. cbv zeta.
+  replace (z <? 0) with false by (symmetry; apply Z.ltb_ge; lia).
+  replace (z <? 0) with false by (symmetry; apply Z.ltb_ge; lia).
+  replace (Z.of_nat (length sg) <=? z) with false by (symmetry; apply Z.leb_gt; lia).
+  reflexivity.
+Qed.
+
+Lemma index_to_key_nonneg sg z :
+  valid_sig sg = true -> 0 <= z ->
+  (if z <? Z.of_nat (length sg)
+   then match py_nth_param sg z with
+        | Some p => match pk p with PosOrKw => inl (KName (pname p)) | _ => inl (KPos z) end
+        | None => inr EIndex
+        end
+   else @inl skey exn (KPos z)) = inl (pos_key sg (Z.to_nat z)).
+Proof.
+  intros V Hz. destruct (valid_sig_shape sg V) as [T SH]. pose proof (n0_le_length _ _ SH) as LE.
+  unfold pos_key.
+  destruct (z <? Z.of_nat (length sg)) eqn:L.
+  - apply Z.ltb_lt in L. rewrite py_nth_param_nonneg by lia.
+    destruct (Nat.lt_ge_cases (Z.to_nat z) (n0 sg)) as [C|C].
+    + rewrite (shape_nth_prefix _ _ _ SH C).
+      destruct (nth_error (prefix_params sg) (Z.to_nat z)) as [p|] eqn:N.
+      * apply nth_error_In in N. apply prefix_params_kind in N.
+        unfold prefix_key. destruct (pk p) eqn:K; try discriminate N; try reflexivity.
+        rewrite (kpos_KPos z Hz). reflexivity.
+      * apply nth_error_None in N. unfold n0, n_prefix in C. lia.
+    + rewrite (shape_nth_tail _ _ _ SH C).
+      assert (N : nth_error (prefix_params sg) (Z.to_nat z) = None)
+        by (apply nth_error_None; unfold n0, n_prefix in C; lia).
+      rewrite N.
+      destruct (nth_error T (Z.to_nat z - n0 sg)) as [q|] eqn:NT.
+      * apply nth_error_In in NT. apply (sh_nonprefix _ _ SH) in NT.
+        rewrite (kpos_KPos z Hz).
+        destruct (pk q); try discriminate NT; reflexivity.
+      * apply nth_error_None in NT. pose proof (sh_split _ _ SH) as E.
+        apply (f_equal (@length param)) in E. rewrite app_length in E.
+        unfold n0, n_prefix in *. lia.
+  - apply Z.ltb_ge in L.
+    assert (N : nth_error (prefix_params sg) (Z.to_nat z) = None)
+      by (apply nth_error_None; unfold n0, n_prefix in LE; lia).
+    rewrite N. rewrite (kpos_KPos z Hz). reflexivity.
+Qed.
+
+Definition adj_index (z n : Z) : option Z :=
+  if z <? 0 then (if z + n <? 0 then None else Some (z + n)) else Some z.
+
+Lemma adj_index_nonneg z n i : adj_index z n = Some i -> 0 <= i.
+Proof.
+  unfold adj_index. destruct (z <? 0) eqn:A.
+  - destruct (z + n <? 0) eqn:B; [discriminate|]. intros H. inversion H. apply Z.ltb_ge in B. lia.
+  - intros H. inversion H. apply Z.ltb_ge in A. lia.
+Qed.
+
+Lemma index_to_key_eq sg st z :
+  valid_sig sg = true ->
+  index_to_key sg z st =
+  match adj_index z (zlen (all_positional sg st)) with
+  | None => inr EIndex
+  | Some i => inl (pos_key sg (Z.to_nat i))
+  end.
+Proof.
+  intros V. unfold index_to_key.
+  pose proof (adj_index_nonneg z (zlen (all_positional sg st))) as NN.
+  unfold adj_index in *. destruct (z <? 0).
+  - destruct (z + zlen (all_positional sg st) <? 0); [reflexivity|].
+    apply index_to_key_nonneg; [exact V|]. apply NN. reflexivity.
+  - apply index_to_key_nonneg; [exact V|]. apply NN. reflexivity.
+Qed.
+
+Lemma norm_adj z n :
+  0 <= n ->
+  norm_index z n = match adj_index z n with
+                   | Some i => if n <=? i then None else Some i
+                   | None => None
+                   end.
+Proof.
+  intros Hn. unfold norm_index, adj_index. destruct (z <? 0) eqn:A.
+  - destruct (z + n <? 0) eqn:B; cbn [orb]; reflexivity.
+  - replace (z <? 0) with false. cbn [orb]. reflexivity.
+Qed.
+
+Lemma find_param_in sg p : names_distinct sg = true -> In p sg -> find_param sg (pname p) = Some p.
+Proof.
+  induction sg as [|q sg IH]; intros ND HI; [destruct HI|].
+  cbn [names_distinct] in ND. apply andb_prop in ND. destruct ND as [ND1 ND2].
+  cbn [find_param]. destruct HI as [E|HI].
+  - subst q. rewrite N.eqb_refl. reflexivity.
+  - destruct (N.eqb (pname q) (pname p)) eqn:E; [|apply IH; assumption].
+    exfalso. apply negb_true_iff in ND1.
+    assert (existsb (fun r => N.eqb (pname r) (pname q)) sg = true).
+    { apply existsb_exists. exists p. split; [exact HI|]. rewrite N.eqb_sym. exact E. }
+    congruence.
+Qed.
+
+Lemma slot_from_of_nth ps : forall i d p,
+  names_distinct ps = true -> nth_error ps d = Some p -> pk p = PosOrKw ->
+  slot_from ps (pname p) i = Some (i + d)%nat.
+Proof.
+  induction ps as [|q ps IH]; intros i d p ND N K; [destruct d; discriminate|].
+  cbn [names_distinct] in ND. apply andb_prop in ND. destruct ND as [ND1 ND2].
+  cbn [slot_from]. destruct d as [|d]; cbn [nth_error] in N.
+  - inversion N. subst q. rewrite N.eqb_refl, K, Nat.add_0_r. reflexivity.
+  - apply negb_true_iff in ND1. pose proof (existsb_name_false _ _ ND1 _ _ N) as X.
+    apply N.eqb_neq in X. rewrite N.eqb_sym, X.
+    rewrite (IH (S i) d p ND2 N K). f_equal. lia.
+Qed.
+
+Lemma key_ok_prefix_key sg st d p :
+  valid_sig sg = true -> nth_error (prefix_params sg) d = Some p ->
+  key_ok sg st (prefix_key p d) = true.
+Proof.
+  intros V N. pose proof (nth_error_In _ _ N) as HI.
+  pose proof (prefix_params_kind _ _ HI) as K.
+  assert (L : (d < n0 sg)%nat) by (unfold n0, n_prefix; apply nth_error_Some; congruence).
+  unfold prefix_key. destruct (pk p) eqn:E; try discriminate K.
+  - unfold kpos. cbn [key_ok].
+    replace (0 <=? Z.of_nat d) with true by (symmetry; apply Z.leb_le; lia).
+    replace (Z.of_nat d <? Z.of_nat (n0 sg)) with true by (symmetry; apply Z.ltb_lt; lia).
+    rewrite Nat2Z.id, N, E. reflexivity.
+  - cbn [key_ok]. unfold prefix_params in HI. apply filter_In in HI. destruct HI as [HI _].
+    rewrite (find_param_in _ _ (valid_sig_names _ V) HI), E. reflexivity.
+Qed.
+
+Lemma key_ok_high sg st j :
+  (n0 sg <= j)%nat ->
+  key_ok sg st (kpos j) =
+  has_varpos sg && forallb (fun j' => smem st (kpos j')) (nat_seq (n0 sg) (j - n0 sg)).
+Proof.
+  intros H. unfold kpos. cbn [key_ok].
+  replace (0 <=? Z.of_nat j) with true by (symmetry; apply Z.leb_le; lia).
+  replace (Z.of_nat j <? Z.of_nat (n0 sg)) with false by (symmetry; apply Z.ltb_ge; lia).
+  rewrite Nat2Z.id. reflexivity.
+Qed.
+
+Lemma inv_high_elim sg st j :
+  inv sg st -> (n0 sg <= j)%nat -> smem st (kpos j) = true ->
+  has_varpos sg = true /\ forall j', (n0 sg <= j' <= j)%nat -> smem st (kpos j') = true.
+Proof.
+  intros I H M. apply inv_elim in I. destruct I as [_ I].
+  pose proof M as M'. apply smem_true in M'. destruct M' as [v G].
+  destruct (I _ _ G) as [K _]. rewrite (key_ok_high _ _ _ H) in K.
+  apply andb_prop in K. destruct K as [K1 K2]. split; [exact K1|].
+  intros j' Hj. destruct (Nat.eq_dec j' j) as [E|E]; [subst; exact M|].
+  rewrite forallb_forall in K2. apply K2. apply In_nat_seq. lia.
+Qed.
+
+Lemma abs_va_run sg st : valid_sig sg = true -> inv sg st -> va_run st (n0 sg) (abs_va sg st).
+Proof.
+  intros V I. unfold abs_va. destruct (vps sg) as [s|] eqn:VP.
+  - rewrite (vps_n0 _ _ V VP). apply abs_varargs_is_run.
+  - split; [intros j Hj; cbn [length] in Hj; lia|].
+    cbn [length]. rewrite Nat.add_0_r.
+    destruct (sget st (kpos (n0 sg))) as [v|] eqn:G; [|reflexivity].
+    exfalso. assert (M : smem st (kpos (n0 sg)) = true) by (apply smem_true; eauto).
+    destruct (inv_high_elim _ _ _ I (Nat.le_refl _) M) as [HV _].
+    unfold has_varpos in HV. rewrite VP in HV. discriminate.
+Qed.
+
+Lemma va_mem sg st j :
+  valid_sig sg = true -> inv sg st -> (n0 sg <= j)%nat ->
+  (smem st (kpos j) = true <-> (j < n0 sg + length (abs_va sg st))%nat).
+Proof.
+  intros V I H. pose proof (abs_va_run _ _ V I) as R. split.
+  - intros M. destruct (Nat.lt_ge_cases j (n0 sg + length (abs_va sg st))) as [C|C]; [exact C|].
+    exfalso. destruct (inv_high_elim _ _ _ I H M) as [_ A].
+    specialize (A (n0 sg + length (abs_va sg st))%nat ltac:(lia)).
+    destruct R as [_ R]. apply smem_true in A. destruct A as [v A]. congruence.
+  - intros C. replace j with (n0 sg + (j - n0 sg))%nat by lia.
+    eapply va_run_present; [exact R|lia].
+Qed.
+
+Lemma abs_va_nonempty sg st : abs_va sg st <> [] -> has_varpos sg = true.
+Proof. unfold abs_va, has_varpos. destruct (vps sg); [reflexivity|congruence]. Qed.
+
+Lemma abs_va_ext_hi sg st st' :
+  valid_sig sg = true ->
+  (forall j, (n0 sg <= j)%nat -> sget st' (kpos j) = sget st (kpos j)) ->
+  abs_va sg st' = abs_va sg st.
+Proof.
+  intros V E. unfold abs_va. destruct (vps sg) as [s|] eqn:VP; [|reflexivity].
+  rewrite (vps_n0 _ _ V VP). apply abs_varargs_ext. exact E.
+Qed.
+
+Lemma prefix_key_not_high sg d p j :
+  nth_error (prefix_params sg) d = Some p -> (n0 sg <= j)%nat -> prefix_key p d <> kpos j.
+Proof.
+  intros N H E. assert (L : (d < n0 sg)%nat) by (unfold n0, n_prefix; apply nth_error_Some; congruence).
+  unfold prefix_key in E. destruct (pk p); try discriminate E; apply kpos_inj in E; lia.
+Qed.
+
+Lemma abs_named_prefix_key sg st d p (f : store -> skey -> store) :
+  valid_sig sg = true -> nth_error (prefix_params sg) d = Some p ->
+  (forall i, abs_named sg (f st (KPos i)) = abs_named sg st) ->
+  (forall n j, slot_of sg n = Some j -> abs_named sg (f st (KName n)) = abs_named sg st) ->
+  abs_named sg (f st (prefix_key p d)) = abs_named sg st.
+Proof.
+  intros V N FP FN. unfold prefix_key.
+  pose proof (prefix_params_kind _ _ (nth_error_In _ _ N)) as K.
+  destruct (pk p) eqn:E; try discriminate K.
+  - apply FP.
+  - eapply FN. unfold slot_of. apply slot_from_of_nth; [apply valid_sig_prefix_names, V|exact N|exact E].
+Qed.
+
+Lemma abs_sset_prefix sg st d p v :
+  valid_sig sg = true -> nth_error (prefix_params sg) d = Some p ->
+  abs sg (sset st (prefix_key p d) v) = set_slot (abs sg st) d (Some v).
+Proof.
+  intros V N. rewrite !abs_unfold. unfold set_slot. cbn [sp_prefix sp_varargs sp_named]. f_equal.
+  - eapply abs_prefix_update.
+    + apply pkeys_distinct_names, valid_sig_prefix_names, V.
+    + exact N.
+    + cbn [Nat.add]. apply sget_sset_eq.
+    + cbn [Nat.add]. intros k Hk. apply sget_sset_neq, Hk.
+  - apply abs_va_ext_hi; [exact V|]. intros j Hj. apply sget_sset_neq.
+    intros E. symmetry in E. revert E. eapply prefix_key_not_high; eauto.
+  - apply (abs_named_prefix_key sg st d p (fun s k => sset s k v) V N).
+    + intros i. apply abs_named_sset_pos.
+    + intros n j S. eapply abs_named_sset_slot; eauto.
+Qed.
+
+Lemma abs_sdel_prefix sg st d p :
+  valid_sig sg = true -> keys_distinct st = true -> nth_error (prefix_params sg) d = Some p ->
+  abs sg (sdel st (prefix_key p d)) = set_slot (abs sg st) d None.
+Proof.
+  intros V D N. rewrite !abs_unfold. unfold set_slot. cbn [sp_prefix sp_varargs sp_named]. f_equal.
+  - eapply abs_prefix_update.
+    + apply pkeys_distinct_names, valid_sig_prefix_names, V.
+    + exact N.
+    + cbn [Nat.add]. apply sget_sdel_eq, D.
+    + cbn [Nat.add]. intros k Hk. apply sget_sdel_neq, Hk.
+  - apply abs_va_ext_hi; [exact V|]. intros j Hj. apply sget_sdel_neq.
+    intros E. symmetry in E. revert E. eapply prefix_key_not_high; eauto.
+  - apply (abs_named_prefix_key sg st d p sdel V N).
+    + intros i. apply abs_named_sdel_pos.
+    + intros n j S. eapply abs_named_sdel_slot; eauto.
+Qed.
+
+Lemma abs_sset_va sg st d v :
+  valid_sig sg = true -> inv sg st -> (d < length (abs_va sg st))%nat ->
+  abs sg (sset st (kpos (n0 sg + d)) v)
+  = mkspec (sp_prefix (abs sg st)) (list_set_nat (sp_varargs (abs sg st)) d v) (sp_named (abs sg st)).
+Proof.
+  intros V I L. rewrite !abs_unfold. cbn [sp_prefix sp_varargs sp_named]. f_equal.
+  - apply abs_prefix_frame. intros k Hk. apply sget_sset_neq. intros E. subst k.
+    revert Hk. apply prefix_keys_not_high. unfold n0, n_prefix. lia.
+  - pose proof (abs_va_run _ _ V I) as [R1 R2].
+    unfold abs_va at 1. destruct (vps sg) as [s|] eqn:VP.
+    + rewrite (vps_n0 _ _ V VP). apply abs_varargs_eq_run. split.
+      * intros j Hj. rewrite list_set_nat_length in Hj. rewrite sget_sset, list_set_nat_nth_error.
+        destruct (Nat.eqb j d) eqn:E.
+        -- apply Nat.eqb_eq in E. subst j. rewrite skey_eqb_refl.
+           apply Nat.ltb_lt in L. rewrite L. reflexivity.
+        -- apply Nat.eqb_neq in E. rewrite skey_eqb_neq by (apply kpos_neq; lia). apply R1, Hj.
+      * rewrite list_set_nat_length. rewrite sget_sset_neq by (apply kpos_neq; lia). exact R2.
+    + unfold abs_va in L. rewrite VP in L. cbn [length] in L. lia.
+  - unfold kpos. apply abs_named_sset_pos.
+Qed.
+
+(* ================================================================== __setitem__ with an int *)
+
+Lemma set_item_by_index_spec sg st log z v :
+  valid_sig sg = true -> inv sg st -> v <> NoValue ->
+  match norm_index z (spec_len sg (abs sg st)) with
+  | Some j =>
+      exists st' log',
+        set_item_by_index sg (st, log) z v = ((st', log'), None)
+        /\ abs sg st' = set_pos sg (abs sg st) (Z.to_nat j) v /\ inv sg st'
+  | None => set_item_by_index sg (st, log) z v = ((st, log), Some EIndex)
+  end.
+Proof.
+  intros V I NV. unfold set_item_by_index. cbn [fst].
+  rewrite (index_to_key_eq _ _ _ V), (all_positional_length _ _ V).
+  assert (Hn : 0 <= spec_len sg (abs sg st)) by (unfold spec_len, zlen; lia).
+  rewrite (norm_adj _ _ Hn).
+  destruct (adj_index z (spec_len sg (abs sg st))) as [i|] eqn:A; [|reflexivity].
+  pose proof (adj_index_nonneg _ _ _ A) as Hi.
+  assert (PN : positional_num sg = Z.of_nat (n0 sg)).
+  { unfold positional_num. destruct (vps sg) as [s|] eqn:VP; [|reflexivity].
+    rewrite (vps_n0 _ _ V VP). reflexivity. }
+  unfold spec_len in *. rewrite abs_unfold in *. cbn [sp_varargs] in *. unfold zlen in *.
+  set (j := Z.to_nat i). assert (Ej : i = Z.of_nat j) by (unfold j; lia).
+  destruct (Z.of_nat (n0 sg) + Z.of_nat (length (abs_va sg st)) <=? i) eqn:C.
+  - (* out of range: the key is an absent *args slot *)
+    apply Z.leb_le in C.
+    assert (N : nth_error (prefix_params sg) j = None)
+      by (apply nth_error_None; unfold n0, n_prefix in C; lia).
+    unfold pos_key. rewrite N. unfold kpos at 1. rewrite PN.
+    replace (Z.of_nat (n0 sg) <=? Z.of_nat j) with true by (symmetry; apply Z.leb_le; lia).
+    assert (M : smem st (kpos j) = false).
+    { destruct (smem st (kpos j)) eqn:M; [|reflexivity].
+      apply (va_mem _ _ _ V I) in M; lia. }
+    fold (kpos j). rewrite M. reflexivity.
+  - apply Z.leb_gt in C. unfold set_pos. fold j.
+    destruct (Nat.ltb j (n0 sg)) eqn:LT.
+    + apply Nat.ltb_lt in LT.
+      destruct (nth_error (prefix_params sg) j) as [p|] eqn:N;
+        [|apply nth_error_None in N; unfold n0, n_prefix in LT; lia].
+      unfold pos_key. rewrite N.
+      assert (OOB : match prefix_key p j with
+                    | KPos i0 => (positional_num sg <=? i0) && negb (smem st (prefix_key p j))
+                    | KName _ => false
+                    end = false).
+      { unfold prefix_key. destruct (pk p); try reflexivity.
+        unfold kpos. rewrite PN.
+        replace (Z.of_nat (n0 sg) <=? Z.of_nat j) with false by (symmetry; apply Z.leb_gt; lia).
+        reflexivity. }
+      rewrite OOB. unfold arg_set. cbn [fst snd].
+      eexists. eexists. split; [reflexivity|]. split.
+      * rewrite <- abs_unfold. apply abs_sset_prefix; assumption.
+      * apply inv_sset; [exact I | apply key_ok_prefix_key; assumption | exact NV].
+    + apply Nat.ltb_ge in LT.
+      assert (N : nth_error (prefix_params sg) j = None)
+        by (apply nth_error_None; unfold n0, n_prefix in LT; lia).
+      unfold pos_key. rewrite N. unfold kpos at 1. rewrite PN. fold (kpos j).
+      assert (M : smem st (kpos j) = true) by (apply (va_mem _ _ _ V I); lia).
+      rewrite M. cbn [negb]. rewrite andb_false_r.
+      unfold arg_set. cbn [fst snd].
+      eexists. eexists. split; [reflexivity|]. split.
+      * replace j with (n0 sg + (j - n0 sg))%nat at 1 by lia.
+        rewrite <- abs_unfold. rewrite abs_sset_va; [|assumption|assumption|lia].
+        rewrite abs_unfold. reflexivity.
+      * apply inv_sset; [exact I | | exact NV].
+        apply smem_true in M. destruct M as [w G].
+        apply inv_elim in I. destruct I as [_ I]. apply (I _ _ G).
+Qed.
+
+Lemma refines_setitem sg st i v :
+  valid_sig sg = true -> inv sg st -> op_ok (OSetItem i v) = true ->
+  refines_step sg st (OSetItem i v).
+Proof.
+  intros V I OK. unfold refines_step, step, step_w, setitem. cbn [spec_step].
+  destruct (replace_int sg i) as [z|e].
+  - assert (NV : v <> NoValue).
+    { cbn [op_ok] in OK. apply negb_true_iff in OK. intros E. apply ref_eqb_eq in E. congruence. }
+    pose proof (set_item_by_index_spec sg st [] z v V I NV) as H.
+    destruct (norm_index z (spec_len sg (abs sg st))) as [j|].
+    + destruct H as [st' [log' [H1 [H2 H3]]]]. rewrite H1. cbn [fst out_of]. auto.
+    + rewrite H. cbn [fst out_of]. auto.
+  - cbn [fst out_of]. auto.
+Qed.
+
+(* ================================================================== replacing the *args region *)
+
+Lemma key_ok_low_indep sg st st' k :
+  (forall idx, (n0 sg <= idx)%nat -> k <> kpos idx) -> key_ok sg st k = key_ok sg st' k.
+Proof.
+  intros H. destruct k as [i|n]; [|reflexivity].
+  cbn [key_ok]. destruct (0 <=? i) eqn:A; [|reflexivity]. cbn [andb].
+  destruct (i <? Z.of_nat (n0 sg)) eqn:B; [reflexivity|].
+  apply Z.leb_le in A. apply Z.ltb_ge in B. exfalso.
+  apply (H (Z.to_nat i)); [lia|]. apply kpos_KPos. exact A.
+Qed.
+
+Lemma skey_high_dec sg k :
+  {idx | (n0 sg <= idx)%nat /\ k = kpos idx} + {forall idx, (n0 sg <= idx)%nat -> k <> kpos idx}.
+Proof.
+  destruct k as [i|n].
+  - destruct (Z_le_dec (Z.of_nat (n0 sg)) i) as [L|L].
+    + left. exists (Z.to_nat i). split; [lia|]. apply kpos_KPos. lia.
+    + right. intros idx Hi E. unfold kpos in E. inversion E. lia.
+  - right. intros idx Hi E. discriminate E.
+Qed.
+
+Lemma va_replaced sg st st' l :
+  valid_sig sg = true -> inv sg st ->
+  keys_distinct st' = true ->
+  (forall k, (forall idx, (n0 sg <= idx)%nat -> k <> kpos idx) -> sget st' k = sget st k) ->
+  abs_named sg st' = abs_named sg st ->
+  (forall idx, (n0 sg <= idx)%nat -> sget st' (kpos idx) = nth_error l (idx - n0 sg)) ->
+  (forall v, In v l -> v <> NoValue) ->
+  (l <> [] -> has_varpos sg = true) ->
+  inv sg st' /\ abs sg st' = mkspec (sp_prefix (abs sg st)) l (sp_named (abs sg st)).
+Proof.
+  intros V I D FR NM HI NV HV.
+  assert (RUN : va_run st' (n0 sg) l).
+  { split.
+    - intros j Hj. rewrite HI by lia. f_equal. lia.
+    - rewrite HI by lia. apply nth_error_None. lia. }
+  split.
+  - pose proof (inv_elim _ _ I) as [_ IE].
+    apply inv_intro; [exact D|]. intros k v G.
+    destruct (skey_high_dec sg k) as [[idx [Hi E]]|LOW].
+    + subst k. rewrite (HI _ Hi) in G. split.
+      * rewrite (key_ok_high _ _ _ Hi). apply andb_true_intro. split.
+        -- apply HV. intros E. subst l. destruct (idx - n0 sg)%nat; discriminate G.
+        -- apply forallb_forall. intros j Hj. apply In_nat_seq in Hj.
+           apply smem_true. rewrite HI by lia.
+           destruct (nth_error l (j - n0 sg)) as [w|] eqn:N; [eauto|].
+           apply nth_error_None in N.
+           assert (idx - n0 sg < length l)%nat by (apply nth_error_Some; congruence). lia.
+      * apply NV. eapply nth_error_In. exact G.
+    + rewrite (FR _ LOW) in G. destruct (IE _ _ G) as [A B]. split; [|exact B].
+      rewrite <- (key_ok_low_indep sg st st' k LOW). exact A.
+  - rewrite !abs_unfold. cbn [sp_prefix sp_named]. f_equal.
+    + apply abs_prefix_frame. intros k Hk. apply FR. intros idx Hi E. subst k.
+      revert Hk. apply prefix_keys_not_high. unfold n0, n_prefix in Hi. lia.
+    + unfold abs_va. destruct (vps sg) as [s|] eqn:VP.
+      * rewrite (vps_n0 _ _ V VP). apply abs_varargs_eq_run. exact RUN.
+      * destruct l as [|w l]; [reflexivity|].
+        assert (has_varpos sg = true) by (apply HV; discriminate).
+        unfold has_varpos in H. rewrite VP in H. discriminate.
+    + exact NM.
+Qed.
+
+(* ================================================================== __delitem__ *)
+
+Lemma dpp_app sg v l1 : forall l2 s new,
+  del_prefix_or_placeholder sg s v new (l1 ++ l2) =
+  match del_prefix_or_placeholder sg s v new l1 with
+  | (s1, new1, None) => del_prefix_or_placeholder sg s1 v new1 l2
+  | r => r
+  end.
+Proof.
+  induction l1 as [|x l1 IH]; intros l2 s new; [reflexivity|].
+  cbn [app del_prefix_or_placeholder]. destruct (x <? v).
+  - destruct (index_to_key sg x (fst s)) as [k|e]; [|reflexivity].
+    destruct (smem (fst s) k); [|apply IH].
+    destruct (arg_del s k) as [s'|e]; [apply IH|reflexivity].
+  - destruct (list_del_at new x) as [new'|]; [apply IH|reflexivity].
+Qed.
+
+Lemma list_del_nat_app_eq {A} (l1 : list A) y l2 k :
+  k = length l1 -> list_del_nat (l1 ++ y :: l2) k = l1 ++ l2.
+Proof. intros E. subst k. apply list_del_nat_app. Qed.
+
+Lemma dpp_hi sg hi : forall m tl s,
+  sdesc hi ->
+  (forall x, In x hi -> Z.of_nat (n0 sg) <= x < Z.of_nat m) ->
+  (n0 sg <= m)%nat ->
+  del_prefix_or_placeholder sg s (Z.of_nat (n0 sg)) (seqZ 0 m ++ tl) hi =
+  (s, seqZ 0 (n0 sg) ++ filter (fun x => negb (zmem x hi)) (seqZ (n0 sg) (m - n0 sg)) ++ tl, None).
+Proof.
+  induction hi as [|x hi IH]; intros m tl s SD B LE.
+  - cbn [del_prefix_or_placeholder]. rewrite filter_true by reflexivity.
+    rewrite app_assoc. rewrite <- seqZ_app. replace (n0 sg + (m - n0 sg))%nat with m by lia.
+    reflexivity.
+  - inversion SD as [|x' hi' Hx SD' E]. subst x' hi'.
+    pose proof (B x (or_introl eq_refl)) as Bx.
+    set (xn := Z.to_nat x). assert (Ex : x = Z.of_nat xn) by (unfold xn; lia).
+    cbn [del_prefix_or_placeholder].
+    replace (x <? Z.of_nat (n0 sg)) with false by (symmetry; apply Z.ltb_ge; lia).
+    unfold list_del_at.
+    replace (x <? 0) with false by (symmetry; apply Z.ltb_ge; lia).
+    replace (zlen (seqZ 0 m ++ tl) <=? x) with false
+      by (symmetry; apply Z.leb_gt; unfold zlen; rewrite app_length, seqZ_length; lia).
+    cbn [orb]. fold xn.
+    rewrite (seqZ_split 0 m xn) by lia. cbn [Nat.add].
+    rewrite <- app_assoc. cbn [app].
+    rewrite (list_del_nat_app_eq _ _ _ xn) by (rewrite seqZ_length; reflexivity).
+    rewrite IH; [| exact SD' | | lia].
+    + f_equal. f_equal. f_equal.
+      rewrite (seqZ_split (n0 sg) (m - n0 sg) (xn - n0 sg)) by lia.
+      replace (n0 sg + (xn - n0 sg))%nat with xn by lia.
+      rewrite filter_app. cbn [filter]. rewrite <- Ex.
+      replace (zmem x (x :: hi)) with true by (symmetry; apply zmem_In; left; reflexivity).
+      cbn [negb]. rewrite <- app_assoc. f_equal.
+      * apply filter_ext_in. intros y Hy. apply seqZ_In in Hy. destruct Hy as [k [Ek Hk]].
+        f_equal. cbn [zmem existsb]. replace (y =? x) with false by (symmetry; apply Z.eqb_neq; lia).
+        reflexivity.
+      * replace (m - n0 sg - S (xn - n0 sg))%nat with (m - S xn)%nat by lia.
+        f_equal. symmetry. apply filter_true. intros y Hy. apply seqZ_In in Hy. destruct Hy as [k [Ek Hk]].
+        apply negb_true_iff. apply zmem_false. intros [E|HI]; [lia|].
+        specialize (Hx y HI). lia.
+    + intros y Hy. specialize (Hx y Hy). specialize (B y (or_intror Hy)). lia.
+Qed.
+
+Lemma index_to_key_nat sg st j :
+  valid_sig sg = true -> index_to_key sg (Z.of_nat j) st = inl (pos_key sg j).
+Proof.
+  intros V. rewrite (index_to_key_eq _ _ _ V). unfold adj_index.
+  replace (Z.of_nat j <? 0) with false by (symmetry; apply Z.ltb_ge; lia).
+  rewrite Nat2Z.id. reflexivity.
+Qed.
+
+Lemma sdel_absent st k : smem st k = false -> sdel st k = st.
+Proof.
+  unfold smem, dmem, sdel. induction st as [|[k0 v0] st IH]; intros H; [reflexivity|].
+  cbn [dget ddel] in *. destruct (skey_eqb k k0); [discriminate|]. rewrite IH by exact H. reflexivity.
+Qed.
+
+Definition unset_list (lo : list Z) (pr : list (option ref)) : list (option ref) :=
+  fold_left (fun pr x => list_set_nat pr (Z.to_nat x) None) lo pr.
+
+Lemma dpp_lo sg lo : forall st log new,
+  valid_sig sg = true -> inv sg st ->
+  (forall x, In x lo -> 0 <= x < Z.of_nat (n0 sg)) ->
+  exists st' log',
+    del_prefix_or_placeholder sg (st, log) (Z.of_nat (n0 sg)) new lo = ((st', log'), new, None)
+    /\ inv sg st'
+    /\ abs sg st' = mkspec (unset_list lo (sp_prefix (abs sg st)))
+                           (sp_varargs (abs sg st)) (sp_named (abs sg st)).
+Proof.
+  induction lo as [|x lo IH]; intros st log new V I B.
+  - exists st, log. cbn [del_prefix_or_placeholder unset_list fold_left]. split; [reflexivity|].
+    split; [exact I|]. destruct (abs sg st); reflexivity.
+  - pose proof (B x (or_introl eq_refl)) as Bx.
+    set (xn := Z.to_nat x). assert (Ex : x = Z.of_nat xn) by (unfold xn; lia).
+    clearbody xn. subst x.
+    cbn [del_prefix_or_placeholder].
+    replace (Z.of_nat xn <? Z.of_nat (n0 sg)) with true by (symmetry; apply Z.ltb_lt; lia).
+    cbn [fst]. rewrite (index_to_key_nat _ _ _ V).
+    destruct (nth_error (prefix_params sg) xn) as [p|] eqn:N;
+      [|apply nth_error_None in N; unfold n0, n_prefix in Bx; lia].
+    unfold pos_key. rewrite N.
+    pose proof (inv_elim _ _ I) as [D _].
+    assert (B' : forall y, In y lo -> 0 <= y < Z.of_nat (n0 sg)) by (intros y Hy; apply B; right; exact Hy).
+    destruct (smem st (prefix_key p xn)) eqn:M.
+    + unfold arg_del. cbn [fst snd]. rewrite M.
+      assert (I' : inv sg (sdel st (prefix_key p xn))).
+      { apply inv_sdel_low; [exact I|]. intros j Hj. eapply prefix_key_not_high; eauto. }
+      destruct (IH (sdel st (prefix_key p xn)) (log ++ [WDel (prefix_key p xn)]) new V I' B')
+        as [st' [log' [A1 [A2 A3]]]].
+      exists st', log'. split; [exact A1|]. split; [exact A2|].
+      rewrite A3. rewrite (abs_sdel_prefix _ _ _ _ V D N). unfold set_slot.
+      cbn [sp_prefix sp_varargs sp_named unset_list fold_left]. rewrite Nat2Z.id. reflexivity.
+    + destruct (IH st log new V I B') as [st' [log' [A1 [A2 A3]]]].
+      exists st', log'. split; [exact A1|]. split; [exact A2|].
+      rewrite A3. cbn [unset_list fold_left]. rewrite Nat2Z.id. f_equal. unfold unset_list. f_equal.
+      symmetry. apply list_set_nat_same. rewrite abs_unfold. cbn [sp_prefix].
+      rewrite (abs_prefix_nth _ _ _ _ _ N). cbn [Nat.add]. f_equal.
+      apply smem_false. exact M.
+Qed.
+
+Lemma compact_spec sg st1 new n : forall c a cur log,
+  (a + c = n)%nat ->
+  keys_distinct cur = true ->
+  (forall idx, (a <= idx)%nat -> sget cur (kpos idx) = sget st1 (kpos idx)) ->
+  (forall idx, (a <= idx < n)%nat -> smem st1 (kpos idx) = true) ->
+  (forall idx j, (a <= idx)%nat -> nth_error new idx = Some j ->
+                 exists jn, j = Z.of_nat jn /\ (idx <= jn < n)%nat) ->
+  exists cur' log',
+    compact (cur, log) new (nat_seq a c) = ((cur', log'), None)
+    /\ keys_distinct cur' = true
+    /\ abs_named sg cur' = abs_named sg cur
+    /\ (forall k, (forall idx, (a <= idx < n)%nat -> k <> kpos idx) -> sget cur' k = sget cur k)
+    /\ (forall idx, (a <= idx < n)%nat ->
+                    sget cur' (kpos idx) =
+                    match nth_error new idx with Some j => sget st1 (KPos j) | None => None end).
+Proof.
+  induction c as [|c IH]; intros a cur log EQ D UN PR NW.
+  - exists cur, log. cbn [nat_seq compact]. repeat split; try reflexivity; try exact D.
+    intros idx Hi. lia.
+  - cbn [nat_seq compact].
+    destruct (nth_error new a) as [j|] eqn:N.
+    + destruct (NW a j (Nat.le_refl _) N) as [jn [Ej Hj]].
+      destruct (j =? Z.of_nat a) eqn:E.
+      * apply Z.eqb_eq in E.
+        destruct (IH (S a) cur log ltac:(lia) D
+                    ltac:(intros idx Hi; apply UN; lia) ltac:(intros idx Hi; apply PR; lia)
+                    ltac:(intros idx j' Hi Hn; destruct (NW idx j' ltac:(lia) Hn) as [jn' [A B]];
+                          exists jn'; split; [exact A|lia]))
+          as [cur' [log' [A1 [A2 [A3 [A4 A5]]]]]].
+        exists cur', log'. split; [exact A1|]. split; [exact A2|]. split; [exact A3|]. split.
+        -- intros k Hk. apply A4. intros idx Hi. apply Hk. lia.
+        -- intros idx Hi. destruct (Nat.eq_dec idx a) as [Ea|Ea].
+           ++ subst idx. rewrite N. rewrite A4 by (intros idx Hi'; apply kpos_neq; lia).
+              rewrite UN by lia. rewrite E. reflexivity.
+           ++ apply A5. lia.
+      * apply Z.eqb_neq in E. cbn [fst].
+        assert (G : sget cur (KPos j) = sget st1 (KPos j)).
+        { rewrite Ej. apply (UN jn). lia. }
+        rewrite G.
+        assert (M : smem st1 (kpos jn) = true) by (apply PR; lia).
+        apply smem_true in M. destruct M as [w M]. rewrite Ej. fold (kpos jn). rewrite M.
+        unfold arg_set. cbn [fst snd].
+        destruct (IH (S a) (sset cur (kpos a) w) (log ++ [WSet (kpos a) w]) ltac:(lia)
+                    (keys_distinct_sset _ _ _ D)
+                    ltac:(intros idx Hi; rewrite sget_sset_neq by (apply kpos_neq; lia); apply UN; lia)
+                    ltac:(intros idx Hi; apply PR; lia)
+                    ltac:(intros idx j' Hi Hn; destruct (NW idx j' ltac:(lia) Hn) as [jn' [A B]];
+                          exists jn'; split; [exact A|lia]))
+          as [cur' [log' [A1 [A2 [A3 [A4 A5]]]]]].
+        exists cur', log'. split; [exact A1|]. split; [exact A2|]. split.
+        { rewrite A3. unfold kpos. apply abs_named_sset_pos. }
+        split.
+        -- intros k Hk. rewrite A4 by (intros idx Hi; apply Hk; lia).
+           apply sget_sset_neq. apply Hk. lia.
+        -- intros idx Hi. destruct (Nat.eq_dec idx a) as [Ea|Ea].
+           ++ subst idx. rewrite N. rewrite A4 by (intros idx Hi'; apply kpos_neq; lia).
+              rewrite sget_sset_eq. rewrite Ej. symmetry. exact M.
+           ++ apply A5. lia.
+    + unfold arg_del. cbn [fst snd].
+      assert (M : smem cur (kpos a) = true).
+      { rewrite smem_sget, UN by lia. rewrite <- smem_sget. apply PR. lia. }
+      rewrite M.
+      destruct (IH (S a) (sdel cur (kpos a)) (log ++ [WDel (kpos a)]) ltac:(lia)
+                  (keys_distinct_sdel _ _ D)
+                  ltac:(intros idx Hi; rewrite sget_sdel_neq by (apply kpos_neq; lia); apply UN; lia)
+                  ltac:(intros idx Hi; apply PR; lia)
+                  ltac:(intros idx j' Hi Hn; destruct (NW idx j' ltac:(lia) Hn) as [jn' [A B]];
+                        exists jn'; split; [exact A|lia]))
+        as [cur' [log' [A1 [A2 [A3 [A4 A5]]]]]].
+      exists cur', log'. split; [exact A1|]. split; [exact A2|]. split.
+      { rewrite A3. unfold kpos. apply abs_named_sdel_pos. }
+      split.
+      * intros k Hk. rewrite A4 by (intros idx Hi; apply Hk; lia).
+        apply sget_sdel_neq. apply Hk. lia.
+      * intros idx Hi. destruct (Nat.eq_dec idx a) as [Ea|Ea].
+        -- subst idx. rewrite N. rewrite A4 by (intros idx Hi'; apply kpos_neq; lia).
+           apply sget_sdel_eq. exact D.
+        -- apply A5. lia.
+Qed.
+
+Lemma filter_seqZ_nth f : forall len a d j,
+  nth_error (filter f (seqZ a len)) d = Some j ->
+  exists jn, j = Z.of_nat jn /\ (a + d <= jn < a + len)%nat.
+Proof.
+  induction len as [|len IH]; intros a d j H.
+  - cbn in H. destruct d; discriminate.
+  - rewrite seqZ_cons in H. cbn [filter] in H. destruct (f (Z.of_nat a)).
+    + destruct d as [|d]; cbn [nth_error] in H.
+      * inversion H. exists a. split; [reflexivity|lia].
+      * apply IH in H. destruct H as [jn [A B]]. exists jn. split; [exact A|lia].
+    + apply IH in H. destruct H as [jn [A B]]. exists jn. split; [exact A|lia].
+Qed.
+
+Lemma filter_length_le' {A} (f : A -> bool) l : (length (filter f l) <= length l)%nat.
+Proof. induction l as [|x l IH]; cbn [filter length]; [lia|]. destruct (f x); cbn [length]; lia. Qed.
+
+Definition valf (st : store) (j : Z) : ref :=
+  match sget st (KPos j) with Some w => w | None => NoValue end.
+
+Lemma vals_filter st drop va : forall i,
+  (forall d, (d < length va)%nat -> sget st (kpos (i + d)) = nth_error va d) ->
+  map (valf st) (filter (fun x => negb (zmem x drop)) (seqZ i (length va)))
+  = filter_idx va (Z.of_nat i) drop.
+Proof.
+  induction va as [|v va IH]; intros i H; [reflexivity|].
+  cbn [length]. rewrite seqZ_cons. cbn [filter filter_idx].
+  assert (IH' : map (valf st) (filter (fun x => negb (zmem x drop)) (seqZ (S i) (length va)))
+                = filter_idx va (Z.of_nat i + 1) drop).
+  { replace (Z.of_nat i + 1) with (Z.of_nat (S i)) by lia. apply IH.
+    intros d Hd. replace (S i + d)%nat with (i + S d)%nat by lia.
+    rewrite H by (cbn [length]; lia). reflexivity. }
+  destruct (zmem (Z.of_nat i) drop); cbn [negb]; [exact IH'|].
+  cbn [map]. rewrite IH'. f_equal.
+  unfold valf. fold (kpos i). pose proof (H 0%nat ltac:(cbn [length]; lia)) as H0.
+  rewrite Nat.add_0_r in H0. rewrite H0. reflexivity.
+Qed.
+
+Lemma unset_slots_nth pr drop : forall i d,
+  nth_error (unset_slots pr i drop) d =
+  match nth_error pr d with
+  | Some o => Some (if zmem (i + Z.of_nat d) drop then None else o)
+  | None => None
+  end.
+Proof.
+  induction pr as [|o pr IH]; intros i d.
+  - destruct d; reflexivity.
+  - cbn [unset_slots]. destruct d as [|d]; cbn [nth_error].
+    + rewrite Z.add_0_r. reflexivity.
+    + rewrite IH. replace (i + 1 + Z.of_nat d) with (i + Z.of_nat (S d)) by lia. reflexivity.
+Qed.
+
+Lemma unset_list_nth lo : forall pr d,
+  (forall x, In x lo -> 0 <= x) ->
+  nth_error (unset_list lo pr) d =
+  match nth_error pr d with
+  | Some o => Some (if zmem (Z.of_nat d) lo then None else o)
+  | None => None
+  end.
+Proof.
+  induction lo as [|x lo IH]; intros pr d H.
+  - cbn [unset_list fold_left zmem existsb]. destruct (nth_error pr d); reflexivity.
+  - cbn [unset_list fold_left]. fold (unset_list lo (list_set_nat pr (Z.to_nat x) None)).
+    rewrite IH by (intros y Hy; apply H; right; exact Hy).
+    rewrite list_set_nat_nth_error. cbn [zmem existsb].
+    pose proof (H x (or_introl eq_refl)) as Hx.
+    destruct (Nat.eqb d (Z.to_nat x)) eqn:E.
+    + apply Nat.eqb_eq in E. replace (Z.of_nat d =? x) with true by (symmetry; apply Z.eqb_eq; lia).
+      cbn [orb]. destruct (Nat.ltb (Z.to_nat x) (length pr)) eqn:L.
+      * apply Nat.ltb_lt in L. destruct (nth_error pr d) eqn:N.
+        -- destruct (zmem (Z.of_nat d) lo); reflexivity.
+        -- apply nth_error_None in N. lia.
+      * apply Nat.ltb_ge in L. replace (nth_error pr d) with (@None (option ref)); [reflexivity|].
+        symmetry. apply nth_error_None. lia.
+    + apply Nat.eqb_neq in E. replace (Z.of_nat d =? x) with false by (symmetry; apply Z.eqb_neq; lia).
+      cbn [orb]. reflexivity.
+Qed.
+
+Lemma all_positional_len_nat sg st :
+  valid_sig sg = true -> length (all_positional sg st) = (n0 sg + length (abs_va sg st))%nat.
+Proof.
+  intros V. rewrite (all_positional_eq _ _ V).
+  rewrite app_length, fill_slots_length, abs_prefix_length. reflexivity.
+Qed.
+
+Lemma del_indices_spec sg st log idxs :
+  valid_sig sg = true -> inv sg st -> NoDup idxs ->
+  (forall x, In x idxs -> 0 <= x < spec_len sg (abs sg st)) ->
+  exists st' log',
+    del_indices sg (st, log) idxs = ((st', log'), None)
+    /\ inv sg st'
+    /\ abs sg st' = mkspec (unset_slots (sp_prefix (abs sg st)) 0 idxs)
+                           (filter_idx (sp_varargs (abs sg st)) (Z.of_nat (n0 sg)) idxs)
+                           (sp_named (abs sg st)).
+Proof.
+  intros V I ND B. unfold del_indices. cbn [fst].
+  set (L := length (abs_va sg st)).
+  assert (En : length (all_positional sg st) = (n0 sg + L)%nat) by apply (all_positional_len_nat _ _ V).
+  rewrite En.
+  assert (Ev : match vps sg with Some v => v | None => (n0 sg + L)%nat end = n0 sg).
+  { destruct (vps sg) as [s|] eqn:VP; [apply (vps_n0 _ _ V VP)|].
+    unfold L, abs_va. rewrite VP. cbn [length]. lia. }
+  rewrite Ev. clear Ev.
+  replace (n0 sg + L - n0 sg)%nat with L by lia.
+  assert (B' : forall x, In x idxs -> 0 <= x < Z.of_nat (n0 sg + L)).
+  { intros x Hx. specialize (B x Hx). unfold spec_len in B. rewrite abs_unfold in B.
+    cbn [sp_varargs] in B. unfold zlen in B. fold L in B. lia. }
+  clear B.
+  set (ds := sort_desc idxs).
+  assert (SD : sdesc ds) by (apply sort_desc_sdesc; exact ND).
+  assert (DI : forall x, In x ds <-> In x idxs) by (intros x; apply sort_desc_In).
+  set (hi := filter (fun x => Z.of_nat (n0 sg) <=? x) ds).
+  set (lo := filter (fun x => x <? Z.of_nat (n0 sg)) ds).
+  assert (Eds : ds = hi ++ lo) by (apply sdesc_split; exact SD).
+  assert (HIin : forall x, In x hi <-> In x idxs /\ Z.of_nat (n0 sg) <= x).
+  { intros x. unfold hi. rewrite filter_In, DI, Z.leb_le. reflexivity. }
+  assert (LOin : forall x, In x lo <-> In x idxs /\ x < Z.of_nat (n0 sg)).
+  { intros x. unfold lo. rewrite filter_In, DI, Z.ltb_lt. reflexivity. }
+  rewrite Eds, dpp_app.
+  rewrite nat_seq_eq. fold (seqZ 0 (n0 sg + L)).
+  rewrite <- (app_nil_r (seqZ 0 (n0 sg + L))).
+  rewrite dpp_hi; [| apply sdesc_filter; exact SD | | lia].
+  2:{ intros x Hx. apply HIin in Hx. destruct Hx as [Hx1 Hx2]. specialize (B' x Hx1). lia. }
+  rewrite app_nil_r. replace (n0 sg + L - n0 sg)%nat with L by lia.
+  set (F := filter (fun x => negb (zmem x hi)) (seqZ (n0 sg) L)).
+  destruct (dpp_lo sg lo st log (seqZ 0 (n0 sg) ++ F) V I) as [st1 [log1 [A1 [I1 AB1]]]].
+  { intros x Hx. apply LOin in Hx. destruct Hx as [Hx1 Hx2]. specialize (B' x Hx1). lia. }
+  rewrite A1.
+  pose proof (inv_elim _ _ I1) as [D1 IE1].
+  assert (VA1 : abs_va sg st1 = abs_va sg st).
+  { apply (f_equal sp_varargs) in AB1. rewrite !abs_unfold in AB1. exact AB1. }
+  assert (PR : forall idx, (n0 sg <= idx < n0 sg + L)%nat -> smem st1 (kpos idx) = true).
+  { intros idx Hi. apply (va_mem _ _ _ V I1); [lia|]. rewrite VA1. fold L. lia. }
+  assert (NWF : forall d j, nth_error F d = Some j ->
+                            exists jn, j = Z.of_nat jn /\ (n0 sg + d <= jn < n0 sg + L)%nat).
+  { intros d j H. unfold F in H. apply filter_seqZ_nth in H. exact H. }
+  assert (NEW : forall idx, (n0 sg <= idx)%nat ->
+                            nth_error (seqZ 0 (n0 sg) ++ F) idx = nth_error F (idx - n0 sg)).
+  { intros idx Hi. rewrite nth_error_app2 by (rewrite seqZ_length; lia).
+    rewrite seqZ_length. reflexivity. }
+  destruct (compact_spec sg st1 (seqZ 0 (n0 sg) ++ F) (n0 sg + L) L (n0 sg) st1 log1
+              eq_refl D1 (fun idx _ => eq_refl) PR) as [st2 [log2 [C1 [D2 [C3 [C4 C5]]]]]].
+  { intros idx j Hi H. rewrite (NEW _ Hi) in H. apply NWF in H. destruct H as [jn [A Bn]].
+    exists jn. split; [exact A|lia]. }
+  exists st2, log2. split; [exact C1|].
+  assert (LF : (length F <= L)%nat).
+  { unfold F. etransitivity; [apply filter_length_le'|]. rewrite seqZ_length. lia. }
+  destruct (va_replaced sg st1 st2 (map (valf st1) F) V I1 D2) as [I2 AB2].
+  - intros k Hk. apply C4. intros idx Hi. apply Hk. lia.
+  - exact C3.
+  - intros idx Hi. rewrite nth_error_map.
+    destruct (Nat.lt_ge_cases idx (n0 sg + L)) as [C|C].
+    + rewrite C5 by lia. rewrite (NEW _ Hi).
+      destruct (nth_error F (idx - n0 sg)) as [j|] eqn:N; [|reflexivity].
+      cbn [option_map]. destruct (NWF _ _ N) as [jn [Ej Hj]].
+      assert (M : smem st1 (kpos jn) = true) by (apply PR; lia).
+      apply smem_true in M. destruct M as [w M]. unfold valf. rewrite Ej. fold (kpos jn).
+      rewrite M. reflexivity.
+    + rewrite C4 by (intros idx' Hi'; apply kpos_neq; lia).
+      replace (nth_error F (idx - n0 sg)) with (@None Z) by (symmetry; apply nth_error_None; lia).
+      cbn [option_map]. apply smem_false.
+      destruct (smem st1 (kpos idx)) eqn:M; [|reflexivity].
+      apply (va_mem _ _ _ V I1) in M; [|lia]. rewrite VA1 in M. fold L in M. lia.
+  - intros v Hv. apply in_map_iff in Hv. destruct Hv as [j [Ev Hj]].
+    apply In_nth_error in Hj. destruct Hj as [d Hd]. destruct (NWF _ _ Hd) as [jn [Ej Hjn]].
+    assert (M : smem st1 (kpos jn) = true) by (apply PR; lia).
+    apply smem_true in M. destruct M as [w M]. subst v. unfold valf. rewrite Ej. fold (kpos jn).
+    rewrite M. apply (IE1 _ _ M).
+  - intros NE. apply (abs_va_nonempty sg st). intros E. apply NE.
+    assert (L = 0)%nat by (unfold L; rewrite E; reflexivity).
+    destruct F; [reflexivity|cbn [length] in LF; lia].
+  - split; [exact I2|]. rewrite AB2, AB1. cbn [sp_prefix sp_named sp_varargs]. f_equal.
+    + apply nth_error_ext. intros d. rewrite unset_slots_nth.
+      rewrite unset_list_nth by (intros x Hx; apply LOin in Hx; destruct Hx as [Hx _]; apply B' in Hx; lia).
+      destruct (nth_error (sp_prefix (abs sg st)) d) as [o|] eqn:N; [|reflexivity].
+      assert (d < n0 sg)%nat.
+      { assert (d < length (sp_prefix (abs sg st)))%nat by (apply nth_error_Some; congruence).
+        rewrite abs_unfold in H. cbn [sp_prefix] in H. rewrite abs_prefix_length in H. exact H. }
+      f_equal. rewrite Z.add_0_l.
+      replace (zmem (Z.of_nat d) lo) with (zmem (Z.of_nat d) idxs); [reflexivity|].
+      destruct (zmem (Z.of_nat d) idxs) eqn:Z1; symmetry.
+      * apply zmem_In. apply LOin. split; [apply zmem_In; exact Z1|lia].
+      * apply zmem_false. intros Hx. apply LOin in Hx. destruct Hx as [Hx _].
+        apply zmem_In in Hx. congruence.
+    + unfold F. rewrite abs_unfold. cbn [sp_varargs]. fold L.
+      unfold L. rewrite vals_filter.
+      * apply filter_idx_ext. intros x Hx.
+        destruct (zmem x idxs) eqn:Z1.
+        -- apply zmem_In. apply HIin. split; [apply zmem_In; exact Z1|lia].
+        -- apply zmem_false. intros Hh. apply HIin in Hh. destruct Hh as [Hh _].
+           apply zmem_In in Hh. congruence.
+      * pose proof (abs_va_run _ _ V I1) as [R1 _]. rewrite VA1 in R1. exact R1.
+Qed.
+
+Lemma unset_slots_single pr j :
+  0 <= j -> unset_slots pr 0 [j] = if j <? Z.of_nat (length pr) then list_set_nat pr (Z.to_nat j) None else pr.
+Proof.
+  intros Hj. apply nth_error_ext. intros d. rewrite unset_slots_nth. cbn [zmem existsb].
+  rewrite Z.add_0_l, orb_false_r.
+  destruct (j <? Z.of_nat (length pr)) eqn:L.
+  - apply Z.ltb_lt in L. rewrite list_set_nat_nth_error.
+    destruct (Nat.eqb d (Z.to_nat j)) eqn:E.
+    + apply Nat.eqb_eq in E. replace (Z.of_nat d =? j) with true by (symmetry; apply Z.eqb_eq; lia).
+      replace (Nat.ltb (Z.to_nat j) (length pr)) with true by (symmetry; apply Nat.ltb_lt; lia).
+      destruct (nth_error pr d) eqn:N; [reflexivity|]. apply nth_error_None in N. lia.
+    + apply Nat.eqb_neq in E. replace (Z.of_nat d =? j) with false by (symmetry; apply Z.eqb_neq; lia).
+      destruct (nth_error pr d); reflexivity.
+  - apply Z.ltb_ge in L. destruct (nth_error pr d) eqn:N; [|reflexivity].
+    assert (d < length pr)%nat by (apply nth_error_Some; congruence).
+    replace (Z.of_nat d =? j) with false by (symmetry; apply Z.eqb_neq; lia). reflexivity.
+Qed.
+
+Lemma spec_len_nonneg sg sp : 0 <= spec_len sg sp.
+Proof. unfold spec_len, zlen. lia. Qed.
+
+Lemma abs_prefix_len sg st : length (sp_prefix (abs sg st)) = n0 sg.
+Proof. rewrite abs_unfold. cbn [sp_prefix]. apply abs_prefix_length. Qed.
+
+Lemma refines_delitem sg st i :
+  valid_sig sg = true -> inv sg st -> refines_step sg st (ODelItem i).
+Proof.
+  intros V I. unfold refines_step, step, step_w, delitem. cbn [spec_step].
+  destruct (replace_int sg i) as [z|e]; [|cbn [fst out_of]; auto].
+  cbn [fst]. rewrite (all_positional_length _ _ V). unfold norm_index.
+  set (n := spec_len sg (abs sg st)).
+  set (key := if z <? 0 then z + n else z).
+  destruct ((key <? 0) || (n <=? key)) eqn:OOB; [cbn [fst out_of]; auto|].
+  apply orb_false_elim in OOB. destruct OOB as [O1 O2].
+  apply Z.ltb_ge in O1. apply Z.leb_gt in O2.
+  destruct (del_indices_spec sg st [] [key] V I) as [st' [log' [A1 [A2 A3]]]].
+  { constructor; [intros []|constructor]. }
+  { intros x [E|[]]. subst x. fold n. lia. }
+  rewrite A1. rewrite (unset_slots_single _ _ O1), abs_prefix_len in A3.
+  destruct (key <? Z.of_nat (n0 sg)) eqn:C; cbn [fst out_of];
+    (split; [reflexivity|]; split; [|exact A2]); rewrite A3.
+  - apply Z.ltb_lt in C. rewrite filter_idx_single_lo by lia.
+    unfold set_slot. reflexivity.
+  - apply Z.ltb_ge in C. rewrite filter_idx_single by lia.
+    replace (Z.to_nat (key - Z.of_nat (n0 sg))) with (Z.to_nat key - n0 sg)%nat by lia.
+    reflexivity.
+Qed.
+
+Lemma refines_delslice sg st sl :
+  valid_sig sg = true -> inv sg st -> refines_step sg st (ODelSlice sl).
+Proof.
+  intros V I. unfold refines_step, step, step_w, delslice. cbn [spec_step].
+  cbn [fst]. rewrite (all_positional_length _ _ V).
+  destruct (slice_indices (replace_part sg (sl_start sl)) (replace_part sg (sl_stop sl))
+              (sl_step sl) (spec_len sg (abs sg st))) as [[[s e] stp]|] eqn:SI;
+    [|cbn [fst out_of]; auto].
+  destruct (slice_indices_some _ _ _ _ _ _ _ SI (spec_len_nonneg _ _)) as [NZ _].
+  destruct (del_indices_spec sg st [] (py_range s e stp) V I) as [st' [log' [A1 [A2 A3]]]].
+  { apply py_range_NoDup. exact NZ. }
+  { intros x Hx. eapply slice_range_in_bounds; eauto. apply spec_len_nonneg. }
+  rewrite A1. cbn [fst out_of]. auto.
+Qed.
+
+(* ================================================================== slice assignment *)
+
+Lemma spec_len_set_pos sg sp j v : spec_len sg (set_pos sg sp j v) = spec_len sg sp.
+Proof.
+  unfold set_pos, spec_len. destruct (Nat.ltb j (n0 sg)); cbn [set_slot sp_varargs]; [reflexivity|].
+  unfold zlen. rewrite list_set_nat_length. reflexivity.
+Qed.
+
+Lemma norm_index_in_range x n : 0 <= x < n -> norm_index x n = Some x.
+Proof.
+  intros H. unfold norm_index.
+  replace (x <? 0) with false by (symmetry; apply Z.ltb_ge; lia).
+  replace (x <? 0) with false by (symmetry; apply Z.ltb_ge; lia).
+  replace (n <=? x) with false by (symmetry; apply Z.leb_gt; lia). reflexivity.
+Qed.
+
+Lemma set_each_spec sg rng : forall vs st log,
+  valid_sig sg = true -> inv sg st ->
+  (forall v, In v vs -> v <> NoValue) ->
+  (forall x, In x rng -> 0 <= x < spec_len sg (abs sg st)) ->
+  exists st' log',
+    set_each sg (st, log) rng vs = ((st', log'), None)
+    /\ abs sg st' = set_pos_each sg (abs sg st) rng vs /\ inv sg st'.
+Proof.
+  induction rng as [|x rng IH]; intros vs st log V I NV B.
+  - exists st, log. cbn [set_each set_pos_each]. auto.
+  - destruct vs as [|v vs].
+    + exists st, log. cbn [set_each set_pos_each]. auto.
+    + cbn [set_each set_pos_each].
+      pose proof (set_item_by_index_spec sg st log x v V I (NV v (or_introl eq_refl))) as H.
+      rewrite (norm_index_in_range _ _ (B x (or_introl eq_refl))) in H.
+      destruct H as [st1 [log1 [H1 [H2 H3]]]]. rewrite H1.
+      destruct (IH vs st1 log1 V H3) as [st' [log' [A1 [A2 A3]]]].
+      * intros w Hw. apply NV. right. exact Hw.
+      * intros y Hy. rewrite H2, spec_len_set_pos. apply B. right. exact Hy.
+      * exists st', log'. split; [exact A1|]. split; [|exact A3]. rewrite A2, H2. reflexivity.
+Qed.
+
+Definition res (snap : store) (x : ph) : option ref :=
+  match x with inl j => sget snap (KPos j) | inr v => Some v end.
+
+Lemma renumber_spec sg snap (new : list ph) n : forall c a cur log,
+  (a + c = n)%nat ->
+  keys_distinct cur = true ->
+  (forall idx, (a <= idx)%nat -> sget cur (kpos idx) = sget snap (kpos idx)) ->
+  (forall idx, (a <= idx < n)%nat -> smem snap (kpos idx) = true) ->
+  (forall idx j, (a <= idx)%nat -> nth_error new idx = Some (inl j) -> smem snap (KPos j) = true) ->
+  exists cur' log',
+    renumber_set (cur, log) snap new (nat_seq a c) = ((cur', log'), None)
+    /\ keys_distinct cur' = true
+    /\ abs_named sg cur' = abs_named sg cur
+    /\ (forall k, (forall idx, (a <= idx < n)%nat -> k <> kpos idx) -> sget cur' k = sget cur k)
+    /\ (forall idx, (a <= idx < n)%nat ->
+                    sget cur' (kpos idx) =
+                    match nth_error new idx with Some x => res snap x | None => None end).
+Proof.
+  induction c as [|c IH]; intros a cur log EQ D UN PR NW.
+  - exists cur, log. cbn [nat_seq renumber_set]. repeat split; try reflexivity; try exact D.
+    intros idx Hi. lia.
+  - cbn [nat_seq renumber_set].
+    assert (NW' : forall idx j, (S a <= idx)%nat -> nth_error new idx = Some (inl j) ->
+                                smem snap (KPos j) = true)
+      by (intros idx j Hi; apply NW; lia).
+    assert (PR' : forall idx, (S a <= idx < n)%nat -> smem snap (kpos idx) = true)
+      by (intros idx Hi; apply PR; lia).
+    destruct (nth_error new a) as [[j|v]|] eqn:N.
+    + destruct (j =? Z.of_nat a) eqn:E.
+      * apply Z.eqb_eq in E.
+        destruct (IH (S a) cur log ltac:(lia) D ltac:(intros idx Hi; apply UN; lia) PR' NW')
+          as [cur' [log' [A1 [A2 [A3 [A4 A5]]]]]].
+        exists cur', log'. split; [exact A1|]. split; [exact A2|]. split; [exact A3|]. split.
+        -- intros k Hk. apply A4. intros idx Hi. apply Hk. lia.
+        -- intros idx Hi. destruct (Nat.eq_dec idx a) as [Ea|Ea].
+           ++ subst idx. rewrite N. rewrite A4 by (intros idx Hi'; apply kpos_neq; lia).
+              rewrite UN by lia. cbn [res]. rewrite E. reflexivity.
+           ++ apply A5. lia.
+      * pose proof (NW a j (Nat.le_refl _) N) as M. apply smem_true in M. destruct M as [w M].
+        rewrite M. unfold arg_set. cbn [fst snd].
+        destruct (IH (S a) (sset cur (kpos a) w) (log ++ [WSet (kpos a) w]) ltac:(lia)
+                    (keys_distinct_sset _ _ _ D)
+                    ltac:(intros idx Hi; rewrite sget_sset_neq by (apply kpos_neq; lia); apply UN; lia)
+                    PR' NW')
+          as [cur' [log' [A1 [A2 [A3 [A4 A5]]]]]].
+        exists cur', log'. split; [exact A1|]. split; [exact A2|]. split.
+        { rewrite A3. unfold kpos. apply abs_named_sset_pos. }
+        split.
+        -- intros k Hk. rewrite A4 by (intros idx Hi; apply Hk; lia).
+           apply sget_sset_neq. apply Hk. lia.
+        -- intros idx Hi. destruct (Nat.eq_dec idx a) as [Ea|Ea].
+           ++ subst idx. rewrite N. rewrite A4 by (intros idx Hi'; apply kpos_neq; lia).
+              rewrite sget_sset_eq. cbn [res]. symmetry. exact M.
+           ++ apply A5. lia.
+    + unfold arg_set. cbn [fst snd].
+      destruct (IH (S a) (sset cur (kpos a) v) (log ++ [WSet (kpos a) v]) ltac:(lia)
+                  (keys_distinct_sset _ _ _ D)
+                  ltac:(intros idx Hi; rewrite sget_sset_neq by (apply kpos_neq; lia); apply UN; lia)
+                  PR' NW')
+        as [cur' [log' [A1 [A2 [A3 [A4 A5]]]]]].
+      exists cur', log'. split; [exact A1|]. split; [exact A2|]. split.
+      { rewrite A3. unfold kpos. apply abs_named_sset_pos. }
+      split.
+      * intros k Hk. rewrite A4 by (intros idx Hi; apply Hk; lia).
+        apply sget_sset_neq. apply Hk. lia.
+      * intros idx Hi. destruct (Nat.eq_dec idx a) as [Ea|Ea].
+        -- subst idx. rewrite N. rewrite A4 by (intros idx Hi'; apply kpos_neq; lia).
+           rewrite sget_sset_eq. reflexivity.
+        -- apply A5. lia.
+    + unfold arg_del. cbn [fst snd].
+      assert (M : smem cur (kpos a) = true).
+      { rewrite smem_sget, UN by lia. rewrite <- smem_sget. apply PR. lia. }
+      rewrite M.
+      destruct (IH (S a) (sdel cur (kpos a)) (log ++ [WDel (kpos a)]) ltac:(lia)
+                  (keys_distinct_sdel _ _ D)
+                  ltac:(intros idx Hi; rewrite sget_sdel_neq by (apply kpos_neq; lia); apply UN; lia)
+                  PR' NW')
+        as [cur' [log' [A1 [A2 [A3 [A4 A5]]]]]].
+      exists cur', log'. split; [exact A1|]. split; [exact A2|]. split.
+      { rewrite A3. unfold kpos. apply abs_named_sdel_pos. }
+      split.
+      * intros k Hk. rewrite A4 by (intros idx Hi; apply Hk; lia).
+        apply sget_sdel_neq. apply Hk. lia.
+      * intros idx Hi. destruct (Nat.eq_dec idx a) as [Ea|Ea].
+        -- subst idx. rewrite N. rewrite A4 by (intros idx Hi'; apply kpos_neq; lia).
+           apply sget_sdel_eq. exact D.
+        -- apply A5. lia.
+Qed.
+
+Lemma append_spec sg snap (new : list ph) : forall c a cur log,
+  keys_distinct cur = true ->
+  (0 < c -> a + c <= length new)%nat ->
+  (forall idx j, (a <= idx)%nat -> nth_error new idx = Some (inl j) -> smem snap (KPos j) = true) ->
+  exists cur' log',
+    append_new (cur, log) snap new (nat_seq a c) = ((cur', log'), None)
+    /\ keys_distinct cur' = true
+    /\ abs_named sg cur' = abs_named sg cur
+    /\ (forall k, (forall idx, (a <= idx < a + c)%nat -> k <> kpos idx) -> sget cur' k = sget cur k)
+    /\ (forall idx, (a <= idx < a + c)%nat ->
+                    sget cur' (kpos idx) =
+                    match nth_error new idx with Some x => res snap x | None => None end).
+Proof.
+  induction c as [|c IH]; intros a cur log D LE NW.
+  - exists cur, log. cbn [nat_seq append_new]. repeat split; try reflexivity; try exact D.
+    intros idx Hi. lia.
+  - cbn [nat_seq append_new].
+    assert (NW' : forall idx j, (S a <= idx)%nat -> nth_error new idx = Some (inl j) ->
+                                smem snap (KPos j) = true)
+      by (intros idx j Hi; apply NW; lia).
+    destruct (nth_error new a) as [x|] eqn:N; [|apply nth_error_None in N; lia].
+    assert (exists w, res snap x = Some w) as [w RW].
+    { destruct x as [j|v]; [|exists v; reflexivity].
+      pose proof (NW a j (Nat.le_refl _) N) as M. apply smem_true in M. exact M. }
+    assert (EQ : exists s1,
+                 match x with
+                 | inl j => match sget snap (KPos j) with
+                            | Some v => append_new (arg_set (cur, log) (kpos a) v) snap new (nat_seq (S a) c)
+                            | None => s1
+                            end
+                 | inr v => append_new (arg_set (cur, log) (kpos a) v) snap new (nat_seq (S a) c)
+                 end = append_new (arg_set (cur, log) (kpos a) w) snap new (nat_seq (S a) c)).
+    { exists ((cur, log), Some EKey).
+      destruct x as [j|v]; cbn [res] in RW; [rewrite RW; reflexivity|].
+      inversion RW. reflexivity. }
+    destruct EQ as [s1 EQ]. cbv iota.
+    match goal with
+    | |- exists _ _, ?lhs = _ /\ _ =>
+        replace lhs with (append_new (arg_set (cur, log) (kpos a) w) snap new (nat_seq (S a) c))
+    end.
+    2:{ destruct x as [j|v]; cbn [res] in RW; [rewrite RW; reflexivity|].
+        inversion RW. reflexivity. }
+    clear s1 EQ.
+    unfold arg_set. cbn [fst snd].
+    destruct (IH (S a) (sset cur (kpos a) w) (log ++ [WSet (kpos a) w])
+                (keys_distinct_sset _ _ _ D) ltac:(lia) NW')
+      as [cur' [log' [A1 [A2 [A3 [A4 A5]]]]]].
+    exists cur', log'. split; [exact A1|]. split; [exact A2|]. split.
+    { rewrite A3. unfold kpos. apply abs_named_sset_pos. }
+    split.
+    + intros k Hk. rewrite A4 by (intros idx Hi; apply Hk; lia).
+      apply sget_sset_neq. apply Hk. lia.
+    + intros idx Hi. destruct (Nat.eq_dec idx a) as [Ea|Ea].
+      * subst idx. rewrite N. rewrite A4 by (intros idx Hi'; apply kpos_neq; lia).
+        rewrite sget_sset_eq. symmetry. exact RW.
+      * apply A5. lia.
+Qed.
+
+(* ------------------------------------------------------------------ placeholders *)
+
+Definition resolveV (view : list ref) (x : ph) : ref :=
+  match x with inl j => nth (Z.to_nat j) view NoValue | inr v => v end.
+
+Lemma placeholders_length n : length (placeholders n) = n.
+Proof. unfold placeholders. rewrite map_length, nat_seq_eq, seq_length. reflexivity. Qed.
+
+Lemma placeholders_nth n k :
+  nth_error (placeholders n) k = if Nat.ltb k n then Some (inl (Z.of_nat k)) else None.
+Proof.
+  unfold placeholders. rewrite nat_seq_eq, nth_error_map.
+  destruct (Nat.ltb k n) eqn:L.
+  - apply Nat.ltb_lt in L. rewrite (nth_error_nth' _ 0%nat) by (rewrite seq_length; exact L).
+    rewrite seq_nth by exact L. reflexivity.
+  - apply Nat.ltb_ge in L.
+    replace (nth_error (seq 0 n) k) with (@None nat); [reflexivity|].
+    symmetry. apply nth_error_None. rewrite seq_length. exact L.
+Qed.
+
+Lemma map_resolve_placeholders view : map (resolveV view) (placeholders (length view)) = view.
+Proof.
+  apply nth_error_ext. intros k. rewrite nth_error_map, placeholders_nth.
+  destruct (Nat.ltb k (length view)) eqn:L.
+  - apply Nat.ltb_lt in L. cbn [option_map resolveV]. rewrite Nat2Z.id.
+    symmetry. apply nth_error_nth'. exact L.
+  - apply Nat.ltb_ge in L. cbn [option_map]. symmetry. apply nth_error_None. exact L.
+Qed.
+
+Lemma map_resolve_inr view vs : map (resolveV view) (map inr vs) = vs.
+Proof. rewrite map_map. cbn [resolveV]. apply map_id. Qed.
+
+Definition ph_ok (n n0' : nat) (new : list ph) : Prop :=
+  forall idx j, nth_error new idx = Some (inl j) ->
+                exists jn, j = Z.of_nat jn /\ (jn < n)%nat /\ (n0' <= jn \/ idx = jn)%nat.
+
+Definition ph_id (n : nat) (l : list ph) : Prop :=
+  forall idx j, nth_error l idx = Some (inl j) -> j = Z.of_nat idx /\ (idx < n)%nat.
+
+Lemma ph_id_placeholders n : ph_id n (placeholders n).
+Proof.
+  intros idx j H. rewrite placeholders_nth in H. destruct (Nat.ltb idx n) eqn:L; [|discriminate].
+  apply Nat.ltb_lt in L. inversion H. auto.
+Qed.
+
+Lemma ph_id_assign n idxs : forall (l : list ph) vs,
+  ph_id n l -> ph_id n (assign_each l idxs (map inr vs)).
+Proof.
+  induction idxs as [|i idxs IH]; intros l vs H; [exact H|].
+  destruct vs as [|v vs]; cbn [map assign_each]; [exact H|].
+  apply IH. intros idx j G. rewrite list_set_nat_nth_error in G.
+  destruct (Nat.eqb idx (Z.to_nat i)).
+  - destruct (Nat.ltb (Z.to_nat i) (length l)); discriminate.
+  - apply H. exact G.
+Qed.
+
+Lemma ph_ok_set_slice n n0' a b step vs new s e stp :
+  slice_indices a b step (Z.of_nat n) = Some (s, e, stp) ->
+  (stp = 1 -> Z.of_nat n0' <= s) ->
+  list_set_slice (placeholders n) a b step (map inr vs) = Some new ->
+  ph_ok n n0' new.
+Proof.
+  intros SI S1 LS. unfold list_set_slice in LS. unfold zlen in LS.
+  rewrite placeholders_length, SI in LS.
+  destruct (stp =? 1) eqn:E1.
+  - apply Z.eqb_eq in E1. specialize (S1 E1). inversion LS. subst new. clear LS.
+    intros idx j H.
+    set (k := Z.to_nat s) in *. set (m := Z.to_nat (Z.max s e)) in *.
+    destruct (Nat.lt_ge_cases idx (length (firstn k (placeholders n)))) as [C|C].
+    + rewrite nth_error_app1 in H by exact C. rewrite nth_error_firstn' in H.
+      destruct (Nat.ltb idx k); [|discriminate].
+      apply ph_id_placeholders in H. destruct H as [A B]. exists idx. auto.
+    + rewrite nth_error_app2 in H by exact C.
+      destruct (Nat.lt_ge_cases (idx - length (firstn k (placeholders n))) (length (map (@inr Z ref) vs)))
+        as [C2|C2].
+      * rewrite nth_error_app1 in H by exact C2. rewrite nth_error_map in H.
+        destruct (nth_error vs _); discriminate.
+      * rewrite nth_error_app2 in H by exact C2. rewrite nth_error_skipn' in H.
+        apply ph_id_placeholders in H. destruct H as [A B].
+        eexists. split; [exact A|]. split; [exact B|]. left. unfold m. lia.
+  - destruct (Nat.eqb _ _); [|discriminate]. inversion LS. subst new.
+    pose proof (ph_id_assign n (py_range s e stp) (placeholders n) vs (ph_id_placeholders n)) as Q.
+    intros idx j H. apply Q in H. destruct H as [A B]. exists idx. auto.
+Qed.
+
+Lemma list_min_step1 s e : list_min s (py_range s e 1) <= s.
+Proof.
+  rewrite py_range_step1. destruct (Z.to_nat (e - s)) as [|k]; cbn [range_from].
+  - rewrite list_min_nil. lia.
+  - apply list_min_head_le.
+Qed.
+
+Lemma view_prefix_length ps : forall slots,
+  length slots = length ps -> length (view_prefix ps slots) = length ps.
+Proof.
+  induction ps as [|p ps IH]; intros slots H; [reflexivity|].
+  destruct slots as [|o slots]; [discriminate|]. cbn [view_prefix length].
+  rewrite IH; [reflexivity|]. cbn [length] in H. lia.
+Qed.
+
+Lemma spec_view_prefix_length sg st :
+  length (view_prefix (prefix_params sg) (sp_prefix (abs sg st))) = n0 sg.
+Proof. rewrite view_prefix_length; [reflexivity|]. apply abs_prefix_len. Qed.
+
+Lemma spec_view_length sg st : length (spec_view sg (abs sg st)) = (n0 sg + length (abs_va sg st))%nat.
+Proof.
+  unfold spec_view. rewrite app_length, spec_view_prefix_length. rewrite abs_unfold. reflexivity.
+Qed.
+
+Lemma setslice_inner sg st log (new : list ph) :
+  valid_sig sg = true -> inv sg st -> has_varpos sg = true ->
+  ph_ok (n0 sg + length (abs_va sg st)) (n0 sg) new ->
+  (forall v, In (inr v) new -> v <> NoValue) ->
+  exists st' log',
+    match renumber_set (st, log) st new (nat_seq (n0 sg) (n0 sg + length (abs_va sg st) - n0 sg)) with
+    | (s1, None) =>
+        append_new s1 st new
+          (nat_seq (n0 sg + length (abs_va sg st)) (length new - (n0 sg + length (abs_va sg st))))
+    | r => r
+    end = ((st', log'), None)
+    /\ inv sg st'
+    /\ abs sg st' = mkspec (sp_prefix (abs sg st))
+                           (skipn (n0 sg) (map (resolveV (spec_view sg (abs sg st))) new))
+                           (sp_named (abs sg st)).
+Proof.
+  intros V I HV OK NVr.
+  set (L := length (abs_va sg st)). fold L in OK.
+  pose proof (inv_elim _ _ I) as [D IE].
+  pose proof (abs_va_run _ _ V I) as [RUN1 RUN2]. fold L in RUN1, RUN2.
+  assert (PR : forall idx, (n0 sg <= idx < n0 sg + L)%nat -> smem st (kpos idx) = true).
+  { intros idx Hi. apply (va_mem _ _ _ V I); [lia|]. fold L. lia. }
+  assert (NW : forall idx j, (n0 sg <= idx)%nat -> nth_error new idx = Some (inl j) ->
+                             exists jn, j = Z.of_nat jn /\ (n0 sg <= jn < n0 sg + L)%nat).
+  { intros idx j Hi H. destruct (OK idx j H) as [jn [A [B C]]]. exists jn. split; [exact A|]. lia. }
+  assert (NWm : forall idx j, (n0 sg <= idx)%nat -> nth_error new idx = Some (inl j) ->
+                              smem st (KPos j) = true).
+  { intros idx j Hi H. destruct (NW idx j Hi H) as [jn [A B]]. subst j. apply (PR jn). exact B. }
+  destruct (renumber_spec sg st new (n0 sg + L) (n0 sg + L - n0 sg) (n0 sg) st log
+              ltac:(lia) D (fun idx _ => eq_refl) PR NWm) as [st1 [log1 [R1 [D1 [R3 [R4 R5]]]]]].
+  rewrite R1.
+  destruct (append_spec sg st new (length new - (n0 sg + L)) (n0 sg + L) st1 log1 D1 ltac:(lia)
+              ltac:(intros idx j Hi; apply NWm; lia)) as [st2 [log2 [P1 [D2 [P3 [P4 P5]]]]]].
+  exists st2, log2. split; [exact P1|].
+  set (view := spec_view sg (abs sg st)).
+  assert (RES : forall idx, (n0 sg <= idx)%nat ->
+                            sget st2 (kpos idx) =
+                            match nth_error new idx with Some x => res st x | None => None end).
+  { intros idx Hi.
+    destruct (Nat.lt_ge_cases idx (n0 sg + L)) as [C|C].
+    - rewrite P4 by (intros idx' Hi'; apply kpos_neq; lia). apply R5. lia.
+    - destruct (Nat.lt_ge_cases idx (n0 sg + L + (length new - (n0 sg + L)))) as [C2|C2].
+      + apply P5. lia.
+      + rewrite P4 by (intros idx' Hi'; apply kpos_neq; lia).
+        rewrite R4 by (intros idx' Hi'; apply kpos_neq; lia).
+        replace (nth_error new idx) with (@None ph) by (symmetry; apply nth_error_None; lia).
+        apply smem_false. destruct (smem st (kpos idx)) eqn:M; [|reflexivity].
+        apply (va_mem _ _ _ V I) in M; [|lia]. fold L in M. lia. }
+  assert (RV : forall idx x, (n0 sg <= idx)%nat -> nth_error new idx = Some x ->
+                             res st x = Some (resolveV view x)).
+  { intros idx x Hi H. destruct x as [j|v]; [|reflexivity].
+    destruct (NW idx j Hi H) as [jn [Ej Hj]]. subst j. cbn [res resolveV]. rewrite Nat2Z.id.
+    fold (kpos jn). replace jn with (n0 sg + (jn - n0 sg))%nat at 1 by lia.
+    rewrite RUN1 by lia. unfold view, spec_view.
+    rewrite app_nth2 by (rewrite spec_view_prefix_length; lia).
+    rewrite spec_view_prefix_length. rewrite abs_unfold. cbn [sp_varargs].
+    apply nth_error_nth'. fold L. lia. }
+  destruct (va_replaced sg st st2 (skipn (n0 sg) (map (resolveV view) new)) V I D2) as [I2 AB2].
+  - intros k Hk. rewrite P4 by (intros idx Hi; apply Hk; lia).
+    apply R4. intros idx Hi. apply Hk. lia.
+  - rewrite P3. exact R3.
+  - intros idx Hi. rewrite nth_error_skipn', nth_error_map.
+    replace (n0 sg + (idx - n0 sg))%nat with idx by lia.
+    rewrite (RES _ Hi). destruct (nth_error new idx) as [x|] eqn:N; [|reflexivity].
+    cbn [option_map]. apply (RV idx); assumption.
+  - intros v Hv. apply In_nth_error in Hv. destruct Hv as [d Hd].
+    rewrite nth_error_skipn', nth_error_map in Hd.
+    destruct (nth_error new (n0 sg + d)) as [x|] eqn:N; [|discriminate].
+    cbn [option_map] in Hd. inversion Hd. subst v.
+    destruct x as [j|v].
+    + pose proof (RV (n0 sg + d)%nat _ ltac:(lia) N) as E. cbn [res] in E. apply IE in E. apply E.
+    + cbn [resolveV]. apply NVr. eapply nth_error_In. exact N.
+  - intros _. exact HV.
+  - split; [exact I2|exact AB2].
+Qed.
+
+Lemma refines_setslice sg st sl vs :
+  valid_sig sg = true -> inv sg st -> op_ok (OSetSlice sl vs) = true ->
+  refines_step sg st (OSetSlice sl vs).
+Proof.
+  intros V I OK. unfold refines_step, step, step_w, set_item_by_slice. cbn [spec_step fst].
+  assert (NV : forall v, In v vs -> v <> NoValue).
+  { cbn [op_ok] in OK. rewrite forallb_forall in OK. intros v Hv E.
+    specialize (OK v Hv). apply negb_true_iff in OK. apply ref_eqb_eq in E. congruence. }
+  change (Z.of_nat (length (all_positional sg st))) with (zlen (all_positional sg st)).
+  rewrite (all_positional_length _ _ V).
+  destruct (slice_indices (replace_part sg (sl_start sl)) (replace_part sg (sl_stop sl))
+              (sl_step sl) (spec_len sg (abs sg st))) as [[[s e] stp]|] eqn:SI;
+    [|cbn [fst out_of]; auto].
+  assert (SP : match vps sg with
+               | Some v => list_min s (py_range s e stp) <? Z.of_nat v
+               | None => true
+               end = negb (has_varpos sg) || (list_min s (py_range s e stp) <? Z.of_nat (n0 sg))).
+  { unfold has_varpos. destruct (vps sg) as [v|] eqn:VP; [|reflexivity].
+    rewrite (vps_n0 _ _ V VP). reflexivity. }
+  rewrite SP. clear SP.
+  destruct (negb (has_varpos sg) || (list_min s (py_range s e stp) <? Z.of_nat (n0 sg))) eqn:SPANS.
+  - (* the slice reaches the prefix *)
+    destruct (Nat.eqb (length (py_range s e stp)) (length vs)); [|cbn [fst out_of]; auto].
+    destruct (set_each_spec sg (py_range s e stp) vs st [] V I NV) as [st' [log' [A1 [A2 A3]]]].
+    { intros x Hx. eapply slice_range_in_bounds; eauto. apply spec_len_nonneg. }
+    rewrite A1. cbn [fst out_of]. auto.
+  - apply orb_false_elim in SPANS. destruct SPANS as [HV FI].
+    apply negb_false_iff in HV. apply Z.ltb_ge in FI.
+    pose proof HV as HV'. unfold has_varpos in HV'.
+    destruct (vps sg) as [v|] eqn:VP; [|discriminate].
+    pose proof (vps_n0 _ _ V VP) as Ev. subst v.
+    rewrite (all_positional_len_nat _ _ V).
+    set (view := spec_view sg (abs sg st)).
+    set (n := (n0 sg + length (abs_va sg st))%nat).
+    assert (Ln : length view = n) by apply spec_view_length.
+    assert (LS : list_set_slice view (replace_part sg (sl_start sl)) (replace_part sg (sl_stop sl))
+                   (sl_step sl) vs
+                 = option_map (map (resolveV view))
+                     (list_set_slice (placeholders n) (replace_part sg (sl_start sl))
+                        (replace_part sg (sl_stop sl)) (sl_step sl) (map inr vs))).
+    { rewrite <- list_set_slice_map. rewrite map_resolve_inr. rewrite <- Ln.
+      rewrite map_resolve_placeholders. reflexivity. }
+    rewrite LS. clear LS.
+    destruct (list_set_slice (placeholders n) (replace_part sg (sl_start sl))
+                (replace_part sg (sl_stop sl)) (sl_step sl) (map inr vs)) as [new|] eqn:LSP;
+      [|cbn [option_map fst out_of]; auto].
+    cbn [option_map].
+    assert (SLn : spec_len sg (abs sg st) = Z.of_nat n).
+    { unfold spec_len, n, zlen. rewrite abs_unfold. cbn [sp_varargs]. lia. }
+    assert (OKn : ph_ok n (n0 sg) new).
+    { eapply ph_ok_set_slice; [rewrite <- SLn; exact SI| |exact LSP].
+      intros E1. subst stp. pose proof (list_min_step1 s e). lia. }
+    destruct (setslice_inner sg st [] new V I HV OKn) as [st' [log' [A1 [A2 A3]]]].
+    { intros v Hv. destruct (list_set_slice_In _ _ _ _ _ _ _ LSP Hv) as [H|H].
+      - unfold placeholders in H. apply in_map_iff in H. destruct H as [k [E _]]. discriminate.
+      - apply in_map_iff in H. destruct H as [w [E Hw]]. inversion E. subst w. apply NV, Hw. }
+    fold n in A1. rewrite A1. cbn [fst out_of]. auto.
+Qed.
+
+(* ================================================================== every operation, every history *)
+
+Theorem refines_all sg st o :
+  valid_sig sg = true -> inv sg st -> op_ok o = true -> refines_step sg st o.
+Proof.
+  intros V I OK. destruct o.
+  - apply refines_getattr; assumption.
+  - apply refines_setattr; assumption.
+  - apply refines_delattr; assumption.
+  - apply refines_getitem; assumption.
+  - apply refines_setitem; assumption.
+  - apply refines_delitem; assumption.
+  - apply refines_getslice; assumption.
+  - apply refines_setslice; assumption.
+  - apply refines_delslice; assumption.
+Qed.
+
+Theorem refines_history sg ops : forall st,
+  valid_sig sg = true -> inv sg st -> forallb op_ok ops = true ->
+  let run := fold_left (fun s o => fst (step sg s o)) ops st in
+  inv sg run
+  /\ abs sg run = fold_left (fun sp o => fst (spec_step sg sp o)) ops (abs sg st).
+Proof.
+  induction ops as [|o ops IH]; intros st V I OK.
+  - cbn [fold_left]. split; [exact I|reflexivity].
+  - cbn [forallb] in OK. apply andb_prop in OK. destruct OK as [OK1 OK2].
+    pose proof (refines_all sg st o V I OK1) as R. unfold refines_step in R.
+    cbn [fold_left].
+    destruct (step sg st o) as [st' r]. destruct (spec_step sg (abs sg st) o) as [sp' r'].
+    destruct R as [_ [A B]]. cbn [fst]. rewrite <- A. apply IH; assumption.
+Qed.
+
+(* every result reported along a history is the one the specification reports *)
+Fixpoint outs_model (sg : sig) (st : store) (ops : list op) : list out :=
+  match ops with
+  | [] => []
+  | o :: rest => let '(st', r) := step sg st o in r :: outs_model sg st' rest
+  end.
+
+Fixpoint outs_spec (sg : sig) (sp : spec) (ops : list op) : list out :=
+  match ops with
+  | [] => []
+  | o :: rest => let '(sp', r) := spec_step sg sp o in r :: outs_spec sg sp' rest
+  end.
+
+Theorem refines_history_outputs sg ops : forall st,
+  valid_sig sg = true -> inv sg st -> forallb op_ok ops = true ->
+  outs_model sg st ops = outs_spec sg (abs sg st) ops.
+Proof.
+  induction ops as [|o ops IH]; intros st V I OK; [reflexivity|].
+  cbn [forallb] in OK. apply andb_prop in OK. destruct OK as [OK1 OK2].
+  pose proof (refines_all sg st o V I OK1) as R. unfold refines_step in R.
+  cbn [outs_model outs_spec].
+  destruct (step sg st o) as [st' r]. destruct (spec_step sg (abs sg st) o) as [sp' r'].
+  destruct R as [E [A B]]. subst r' sp'. f_equal. apply IH; assumption.
+Qed.
+
+(* ================================================================== non-vacuity *)
+
+(* def f(a, b=10, /, c, d=20, *args, e, g=30, **kw) *)
+Definition ex_sig : sig :=
+  [ mkparam 1%N PosOnly None false;
+    mkparam 2%N PosOnly (Some (RA (AInt 10))) false;
+    mkparam 3%N PosOrKw (Some (RA (AInt 15))) false;
+    mkparam 4%N PosOrKw (Some (RA (AInt 20))) false;
+    mkparam 5%N VarPos None false;
+    mkparam 6%N KwOnly None false;
+    mkparam 7%N KwOnly (Some (RA (AInt 30))) false;
+    mkparam 8%N VarKw None false ].
+
+(* Config(f, 1, c=3, e=6, extra=9) then cfg[4:] = [41, 42] : {0: 1, 'c': 3, 'e': 6, 'extra': 9, 4: 41, 5: 42} *)
+Definition ex_store : store :=
+  [ (KPos 0, RA (AInt 1)); (KName 3%N, RA (AInt 3)); (KName 6%N, RA (AInt 6));
+    (KName 99%N, RA (AInt 9)); (KPos 4, RA (AInt 41)); (KPos 5, RA (AInt 42)) ].
+
+Example ex_nonvacuous : valid_sig ex_sig = true /\ inv ex_sig ex_store.
+Proof. split; vm_compute; reflexivity. Qed.
+
+Example ex_abs :
+  abs ex_sig ex_store =
+  mkspec [Some (RA (AInt 1)); None; Some (RA (AInt 3)); None]
+         [RA (AInt 41); RA (AInt 42)]
+         [(6%N, RA (AInt 6)); (99%N, RA (AInt 9))].
+Proof. vm_compute. reflexivity. Qed.
+
+(* a history exercising every operation class on the example; all steps satisfy op_ok *)
+Definition ex_ops : list op :=
+  [ OSetAttr 4%N (RA (AInt 7)); OGetAttr 3%N; ODelAttr 3%N; OSetItem (IInt (-1)) (RA (AInt 8));
+    OGetItem IVarargs; ODelItem (IInt 4);
+    OSetSlice (mkslice (Some IVarargs) None None) [RA (AInt 50); RA (AInt 51); RA (AInt 52)];
+    OGetSlice (mkslice None None (Some (-1))); ODelSlice (mkslice (Some (IInt 1)) None (Some 2));
+    OSetSlice (mkslice (Some (IInt 0)) (Some (IInt 2)) None) [RA (AInt 60); RA (AInt 61)] ].
+
+Example ex_history :
+  forallb op_ok ex_ops = true
+  /\ abs ex_sig (fold_left (fun s o => fst (step ex_sig s o)) ex_ops ex_store)
+     = mkspec [Some (RA (AInt 60)); Some (RA (AInt 61)); None; None]
+              [RA (AInt 50); RA (AInt 52)]
+              [(6%N, RA (AInt 6)); (99%N, RA (AInt 9))].
+Proof. split; vm_compute; reflexivity. Qed.
